@@ -12,2603 +12,1364 @@ Definition show_fres (r : fres) : string :=
   end.
 Definition check (rs : list rune) : string := digest (show_fres (format_res rs)).
 Definition full (rs : list rune) : string := show_fres (format_res rs).
-Eval vm_compute in ("<<<M1367>>>" ++ check (runes_of_ascii "// c
-root
-packet i64_  {@tag(// " ++ [27880; 37322]%N ++ runes_of_ascii "
-255 //
-) match o as calculatedFrom { [
-10 ] :uint8x ,[  """"  ,
-    ""x y""]
-:
-    uint8x, 00 // `tick` ""quote"" 'q'
-: x //x
-,
-    [ 1 // " ++ [27880; 37322]%N ++ runes_of_ascii "
-, ""// no comment"" , 00
-    ,
-    10 ]
-    :int // " ++ [27880; 37322]%N ++ runes_of_ascii "
-, ""abc"" :leftPad
-,
-    """ ++ [28040; 24687]%N ++ runes_of_ascii """	: body , }
-, @calculatedFrom(""abc"" )int64
-    // trailing space 
-    Packet @calculatedFrom( ""CRC32""
-    )`tab	here`
-    , repeat MetaDataX `// not a comment` ,repeat A {
-    //x
-    repeat repeatCount { match // trailing space 
-float
-as uint8x { [ ""it's"" , """ ++ [28040; 24687]%N ++ runes_of_ascii """
-    ] :
-string_ ,  ""{,}""
-: u8x ""a\\"" :
-asx	}	, }  , repeat  zchar[42 ] u8x,repeat int16 T ,}// packet A { u8 x, }
-, zchar[ 0123456789 ]// a // b
-BodyLength	@calculatedFrom( ""`tick`""), @calculatedFrom( ""a\\"")falsey { i16 lengthOf @calculatedFrom( ""packet"" )
-`{ , }`
-    ,
-}, f32
-    a1,  } root packet calculatedFrom {
-@calculatedFrom( """ ++ [128512]%N ++ runes_of_ascii """  ) repeat uint8
-options1 , } packet MetaDataX
-{@calculatedFrom(// `tick` ""quote"" 'q'
-""\n"") @tag(	7
-    ) @lengthOf(charz //x
-)a1 {lengthOf @lengthOf(
-    calculatedFrom )
-, match u128 as BodyLength {
-    [ ""a	b"", 007,007, ""1"" ] : f32a ,  """ ++ [233]%N ++ runes_of_ascii "t" ++ [233]%N ++ runes_of_ascii """
-    : a1 , ""x y"" // trailing space 
-:string_  ""a\""b"": i8i8 , 7
-: len
-, }
-, repeat MetaDataX
-{ /// triple
-_x
-    u8x `
-`
-, match	A
-    as As{ ""x y"":float
-//x
-//
-, }
-    ,
-// `tick` ""quote"" 'q'
-/// triple
-} , trueish ,}
-, repeat asx{ u128 @calculatedFrom(""abc""	)`doc` , },
-    char[] // packet A { u8 x, }
-i8i8, repeat char[] stringy `it's`
-    ,Foo{ repeat MetaDataX, repeat char Header , match
-crc //x
-as a1	{ ""it's"" : rootA , 0123456789:
-MetaDataX
-    } , uint8x	@lengthOf( i8i8 )
-    , // trailing space 
-}, string_ `line1
-line2`
-,@tag( 10  )repeat char Packet
-    `tab	here`, char u128 @calculatedFrom( ""1"" )//
-,}packet Pad { i16
-    // " ++ [27880; 37322]%N ++ runes_of_ascii "
-    leftPad @calculatedFrom(
-    """ ++ [28040; 24687]%N ++ runes_of_ascii """ ) , options1 BodyLength
-    ,
-    @tag(
-007)
-    // trailing space 
-    int @calculatedFrom(
-    // @lengthOf(
-    ""packet"" )
-, @tag( 4294967296 ) match u as
-    x
-{
-    00 : // a // b
-lengthOf} , @tag( 7)
-    repeat leftPad
-    {
-Pad{ uint32 string_/// triple
-@lengthOf( //x
-Foo )
-    `" ++ [233]%N ++ runes_of_ascii "` ,
-}  , match
-    u
-    //x
-    as lengthOf { 42
-: // " ++ [128512]%N ++ runes_of_ascii " emoji
-Packet 255	:
-    pack
-    }	,// packet A { u8 x, }
-matchKey @calculatedFrom( """ ++ [28040; 24687]%N ++ runes_of_ascii """ )`doc`
-    ,	},	match float as  Z9_{ 0	: tag [ 65535 ,1 , /// triple
-00	, 1 ,
-007]
-: x_y_z ,
-} ,	@calculatedFrom(
-""{,}"")
-// " ++ [27880; 37322]%N ++ runes_of_ascii "
-//x
-char[
-1 ] Header `doc` // c
-,
-@lengthOf(metadata ) @calculatedFrom(
-""`tick`"" )@lengthOf( body ) uint64 charz , repeat f64 // a // b
-string_ , @leftPad
-()
-match calculatedFrom as msg_type { [
-""" ++ [233]%N ++ runes_of_ascii "t" ++ [233]%N ++ runes_of_ascii """ ] : msg_type,255 : x_y_z , // " ++ [27880; 37322]%N ++ runes_of_ascii "
-007 : i64_
+Eval vm_compute in ("<<<M1719>>>" ++ check (runes_of_ascii "  options {
+ArrayPrefixLenType
+	=u16 ;FixedStringPadFromLeft
+    = 
+true
+
+    ;  JavaPackage
+= ""co\
+m.example.msg""
+; GoPackage  = 
+""ms\
+g"" 
+;	GoModule = ""example.com/msg""
+
+;
 }
+
+    MetaData Meta
+	{
+    u32
+    SeqNum
+    `sequence number`,	char[
+
+    8
+]
+Symbol `symbol` 
+,  zchar[5
+
+    ]
+ZSym	`z symbol`
+
+,  string  Note
     ,
-}")).
-Eval vm_compute in ("<<<M4122>>>" ++ check (runes_of_ascii "
-// " ++ [27880; 37322]%N ++ runes_of_ascii "
-  options {  zchar	// a // b
-	=
-""x y"" ; options1 
-=
-u16 ;
-}  packet Pad{
-Z9_	@calculatedFrom(
-"""") `
-` 
-,	@tag( 42	)//
-@tag(	00)
-	@lengthOf(
-	zchar )
+	Symbol
+    AltSymbol
 
-match _x // packet A { u8 x, }
-  	as 
-metadata  {
-	007 :
-As ""`tick`"" // packet A { u8 x, }
-    :lengthOf , 255
-:lengthOf 
-""a	b"" 
-    // trailing space 
+`alias of symbol`,
 
-// " ++ [27880; 37322]%N ++ runes_of_ascii "
-:	Packet 255
-	: a1	,	// c
-  [
+f64  Price ,
+} packet 
+Inner{u8
 
-00  ,
-0  ,
-
-    10
-
-    ,""a\\""
-,
-
-""it's"" ,
-	10, 7
-	]:Foo ,
-	}
-	,  match
-
-Header 
-as
-    o
-
-    {[ 	 // packet A { u8 x, }
-255  ]	:
-
-zchar
-	,
-0123456789  :
-leftPad 
-[007
-
-,  3	]
-:	leftPad , 	 // c
-	0
-
-:	packetx
-
-    ,
-	}
-	, }	MetaData
-    Pad{	// packet A { u8 x, }
-}packet T
-    // packet A { u8 x, }
-	  { 
-// " ++ [27880; 37322]%N ++ runes_of_ascii "
-		charz
-
-@lengthOf(  asx)``,
-} packet
-
-    matchKey 
-{
-    @tag( 3 ) @calculatedFrom( ""a	b"" 
-
-    /// triple
-	// c
-)@calculatedFrom(
-""""  ) pack
-rootA
-    , 
-repeat//	t
-  leftPad ``
-	,  repeat
-	uint32 Foo
-`u8 x,`
-,
-@calculatedFrom( """ ++ [233]%N ++ runes_of_ascii "t" ++ [233]%N ++ runes_of_ascii """) repeat 
-char[
-65535 ]	u
-, @lengthOf( 
-_x
-) @lengthOf( 
-u8x) 
-repeat
-
-    zchar[ 0123456789
-
-    ]  x	, 
-match 
-i64_  // " ++ [27880; 37322]%N ++ runes_of_ascii "
-    as
-    falsey
-    {// trailing space 
-	255:
-
-f32a ,
-    ""{,}""
-
-    :
-x
-, ""\" ++ [233]%N ++ runes_of_ascii """ : matchKey  ,
-[ 
-""""
+    a
+, i16
+    b
 
 , 
-  // trailing space 
-  	""{,}"" ,10 
-,
+string
 
-    """ ++ [128512]%N ++ runes_of_ascii """ 
-  // a // b
-    // packet A { u8 x, }
-	,
-""a	b"",
+    c
+,	}
 
-    0
-,
-    ""1"" , 65535 ]
-:
-len
-,	""\" ++ [233]%N ++ runes_of_ascii """
-    : T ,
-	[
-""CRC32""
-    ,
-        // " ++ [128512]%N ++ runes_of_ascii " emoji
-  1
-, ""// no comment"",007,
-1
-	,	""`tick`""  ,""" ++ [128512]%N ++ runes_of_ascii """]// packet A { u8 x, }
-	  : a1 } ,match
-	x 
-as
-    As{ 
-""a	b""
-	: 
-o
-,
-    007
+    packet Inner2 {
+u8
 
-    :MetaDataX
-    ,
-    [  ""a	b""
+a2,
 
-] :
-    falsey , 
-""// no comment""  : Z9_
-""packet""
-	:
-_x 
-// " ++ [128512]%N ++ runes_of_ascii " emoji
-    , } ,  repeat rootA
-    {  uint8 MetaDataX@calculatedFrom(
-""abc""
-)	,
-match // `tick` ""quote"" 'q'
-
-int  as // a // b
-asx
-
-{[10  , 
-10 ,
-
-""`tick`""
-, 
-00,
-4294967296]:
-
-    o,
-""CRC32""
-    :
-string_ ,
-[0 ]
-: roots  65535
-:  
-  // " ++ [27880; 37322]%N ++ runes_of_ascii "
-  // trailing space 
-		_x 	 //
-	,
-
-""it's"" : 
-Pad
-	,
-4294967296 :
-
-Pad 
-, }
-,u16 
-chars
-
-`line1
-line2` 
-,  //x
-	}
-, } ")).
-Eval vm_compute in ("<<<M913>>>" ++ check (runes_of_ascii "MetaData trueish { f32
-a1 `it's` , A // " ++ [128512]%N ++ runes_of_ascii " emoji
-lengthOf`tab	here` , } MetaData	BodyLength
-{
-    // @lengthOf(
     char[
-0123456789 ]stringy
-//	t
-// c
-,
-} packet string_ { @rightPad	('0' ) asx
-    , @calculatedFrom(""abc""
-    )repeat char[ 4294967296 // `tick` ""quote"" 'q'
-] packetx ,
-// a // b
-// " ++ [27880; 37322]%N ++ runes_of_ascii "
-repeat
-o
-    // " ++ [27880; 37322]%N ++ runes_of_ascii "
-    { // `tick` ""quote"" 'q'
-int64
-u8x,repeat u32 leftPad
-`a\`
-, // packet A { u8 x, }
-char[] charz `doc`
-,zchar[
-65535
-] lengthOf@calculatedFrom(  ""a\\""
-    )
-, }  ,
-    // " ++ [27880; 37322]%N ++ runes_of_ascii "
-    leftPad
-@calculatedFrom(	""// no comment"")`// not a comment` ,
-    int32 int
-,pack {zchar,
-} // c
-,repeat zchar[65535 ]
-    // c
-    x ,
-@rightPad  (  '0' )
-//x
-// c
-float32 Z9_
-, @calculatedFrom(
-// a // b
-// " ++ [27880; 37322]%N ++ runes_of_ascii "
-""`tick`""
-    )
-    match
-uint8x
-    as
-Header // `tick` ""quote"" 'q'
-{[42
-    // " ++ [128512]%N ++ runes_of_ascii " emoji
-    ]
-    :f32a, 4294967296
-    :
-    matchKey , """ ++ [28040; 24687]%N ++ runes_of_ascii """
-    /// triple
-    : tag 1 :// a // b
-body
-, }
-    ,
-@tag(// a // b
-007
-    )@calculatedFrom( ""a\\"" ) @lengthOf(
-metadata ) repeat chars ,}
-packet roots { char[007
-    ]
-Foo@lengthOf(zchar ) `line1
-line2` , @tag( 255 ) match crc as lengthOf {[ ""// no comment"" ]
-:
-    Header ,
-    //x
-    1 :// " ++ [128512]%N ++ runes_of_ascii " emoji
-crc ,""\n"" :  options1 , [ 1, """ ++ [28040; 24687]%N ++ runes_of_ascii """
-    ,
-    00,	1, //	t
-42 ,65535  ] : Z9_,}
-//x
-// a // b
-,zchar[ 4294967296
-] As `say ""hi""`
-    ,	@lengthOf( stringy ) chars
-{float32 u8x,} ,
-    char[ 255 ] Pad
-    @lengthOf(u8x ) ,
-int64 metadata,
-    // c
-    uint8 x_y_z	@lengthOf(
-    //
-    Header )`two words`,	repeat zchar[ 42 ] calculatedFrom `it's`	, @rightPad
-(
-'\x00' )
-    repeat
-    crc
-    // @lengthOf(
-    {
-    // trailing space 
-    repeat As {
-i64_`line1
-line2` , } ,}
-, }
-")).
-Eval vm_compute in ("<<<M499>>>" ++ check (runes_of_ascii "  packet trueish { match
-    options1 as
-    Packet{[
-    ""a\\"" , 3	, ""\" ++ [233]%N ++ runes_of_ascii """ //
-,0123456789 ]  : Packet
-    ,""// no comment""
-    : BodyLength,
-[
-    10 ]: //	t
-stringy , """ ++ [28040; 24687]%N ++ runes_of_ascii """ :  metadata [  ""`tick`""
-    ,
-7 , ""// no comment"" ] :int ,65535 :
-//x
-// packet A { u8 x, }
-packetx ,
-    } ,}
-    packet
-    f32a
-{  @calculatedFrom( //	t
-""{,}"" )
-char[] len `doc`
-    , @leftPad
-    ( '\x00'
-    ) repeat char[] Z9_ `tab	here` ,
-match MetaDataX
-// c
-// packet A { u8 x, }
-as crc {
-    ""a	b""
-    :	Pad , 10
-:
-matchKey  [
-1 ,""{,}"" ,3 ] :
-    uint8x , ""x y"" :
-    Header , 7 // trailing space 
-: repeatCount ,[ ""a\\"" , ""a\""b""
-    // " ++ [128512]%N ++ runes_of_ascii " emoji
-    , 10] : a1 ,
-} ,
-@calculatedFrom(""a\\"" )
-    //x
-    @leftPad
-// a // b
-// trailing space 
-( ) @leftPad
-    ( '\x00'	)calculatedFrom
-`tab	here` , @rightPad (// c
-'\x00' )
-    float32
-body ,  } packet
-    Pad {Packet
-    @calculatedFrom(
-    ""a	b""
-// trailing space 
-// a // b
-), @tag(
-4294967296
-    ) @rightPad// " ++ [128512]%N ++ runes_of_ascii " emoji
-( ) @calculatedFrom(
-    // a // b
-    ""1""	) repeat tag
-    matchKey `" ++ [28040; 24687; 31867; 22411]%N ++ runes_of_ascii "` ,  @tag(
-    4294967296)
-@lengthOf(string_
-    ) falsey
-//
-// " ++ [27880; 37322]%N ++ runes_of_ascii "
-i64_
-    , @tag( 0123456789 ) As
-u `two words` , @leftPad ( '0' ) options1{ uint8 zchar // c
-, }
-    , @leftPad	( ) repeat uint32
-    // a // b
-    asx ,	metadata { // c
-char[ 0 ] len @lengthOf(T ) , }	, zchar[ 3 ]uint8x @lengthOf( trueish // `tick` ""quote"" 'q'
-) `" ++ [233]%N ++ runes_of_ascii "` , @calculatedFrom(  ""CRC32""
-)
-    roots@lengthOf( x
-    ), }")).
-Eval vm_compute in ("<<<M1103>>>" ++ check (runes_of_ascii "packet body {
-@tag(00) options1 @calculatedFrom(""1""
-)
-    ,@calculatedFrom(
-// " ++ [27880; 37322]%N ++ runes_of_ascii "
-// packet A { u8 x, }
-""abc"" )
-uint8x
-    {o
-    //	t
-    , // c
-u16 float
-`a\` ,} , @tag( 1 ) u `u8 x,` ,crc { zchar{ match/// triple
-i8i8 as // trailing space 
-int {	""`tick`"": x_y_z,
-}, repeat uint8 f32a,
-    }
-,// c
-i8 As@lengthOf( Foo  ) `it's`
-,charz@calculatedFrom(
-""it's"") , char[ 4294967296 ] Packet `it's` , } ,
-    @lengthOf( Z9_
-)  crc  { repeat options1 {
-match // `tick` ""quote"" 'q'
-MetaDataX
-as
-    pack
-    { [
-//	t
-//
-""a\\"" ]
-: i8i8 ,""a\\""  :falsey [""packet""
-] : Logon,	[ 4294967296 ,
-    ""abc"" ,""{,}"",//x
-3 , """ ++ [128512]%N ++ runes_of_ascii """ , 7 ,00
-,
-    7
-    ] : matchKey ,
-0 : trueish ,
-} ,x_y_z repeatCount , repeat uint16 repeatCount //
-, },
-options1
-, // " ++ [128512]%N ++ runes_of_ascii " emoji
-falsey{ char[]
-    u `u8 x,` ,  } , }
-,
-} root packet Pad { match o // trailing space 
-as a1{ [
-"""" ,
-""packet""
-    // c
-    , 1 ,
-    //	t
-    0123456789 // trailing space 
-]
-    : charz
-,// trailing space 
-""a\""b""
-:
-x_y_z ,
-[
-    ""CRC32""
-, 007, 255
-] :
-float , 4294967296 : int ,
-""{,}"" :stringy ,
-    4294967296: A,
-} ,	@rightPad
-    () @tag(
-    7 //
-) match // packet A { u8 x, }
-uint8x
-as
-crc{  255
-: pack , }
-    ,repeat int8
-i8i8 ,} packet a1
-{ string As  @calculatedFrom(
-    ""a	b""
-    ),} MetaData u {  }
-    //x
-    root packet f32a {	}")).
-Eval vm_compute in ("<<<M4065>>>" ++ check (runes_of_ascii "packet pack {
-}
 
-options {
-    As = ""\" ++ [233]%N ++ runes_of_ascii """;
-}
+3
+]c2, 
+} packet
+Logon
 
-root packet lengthOf {
-    @tag(65535)
-    @calculatedFrom(""" ++ [233]%N ++ runes_of_ascii "t" ++ [233]%N ++ runes_of_ascii """)
-    @calculatedFrom(""abc"")
-    repeat string msg_type,
-    @calculatedFrom(""" ++ [233]%N ++ runes_of_ascii "t" ++ [233]%N ++ runes_of_ascii """)
-    char[255] Logon,
-    u64 pack @calculatedFrom(""a\\""),
-    @rightPad('0')
-    T {
-        zchar[3] u8x @calculatedFrom(""CRC32"") `two words`,
-        o {
-            _x {
-                // " ++ [27880; 37322]%N ++ runes_of_ascii "
-                float32 calculatedFrom,
-            },
-            repeat int64 u128,
-            float32 string_ @lengthOf(msg_type) `say ""hi""`,
-        },
-    },
-    i16 charz `a\`,
-    @lengthOf(x)
-    leftPad {
-        As {
-            int64 i8i8,
-        },
-        // packet A { u8 x, }
-    },
-    @tag(7)
-    @tag(7)
-    x_y_z @lengthOf(body),
-    @tag(007)
-    repeat calculatedFrom _x,
-    @calculatedFrom(""\n"")
-    repeat u8 trueish,
-    i16 calculatedFrom `it's`,
-}
-
-packet A {
-    match As as chars {
-        ""1"" : options1,
-    },
-}
-
-packet Packet {
-    @leftPad('\x00')
-    float64 matchKey,
-    zchar[65535] Pad `" ++ [233]%N ++ runes_of_ascii "`,
-    repeat uint32 options1,
-    @calculatedFrom(""// no comment"")
-    char[] metadata `// not a comment`,
-    Header @calculatedFrom(""packet"") ``,
-}
-// a // b")).
-Eval vm_compute in ("<<<M3852>>>" ++ check (runes_of_ascii "packet Packet {
-    Logon @lengthOf(chars),
-    @lengthOf(stringy)
-    int {
-        // a // b
-        char[1] rootA,
-        repeat repeatCount `it's`,
-        i8 calculatedFrom,
-    },
-    _x u128,
-    //	t
-    i16 uint8x @lengthOf(a1),
-    a1 @calculatedFrom(""" ++ [233]%N ++ runes_of_ascii "t" ++ [233]%N ++ runes_of_ascii """),
-    @lengthOf(x)
-    repeat x_y_z {
-        int32 crc @calculatedFrom(""packet""),
-        repeat string Z9_,
-        float64 len,
-    },
-    repeat options1 `" ++ [28040; 24687; 31867; 22411]%N ++ runes_of_ascii "`,
-    // a // b
-    // " ++ [128512]%N ++ runes_of_ascii " emoji
-    @leftPad(' ')
-    string msg_type @calculatedFrom(""a	b""),// trailing space 
-    repeat uint8 trueish `line1
-        line2`,
-}
-
-options {
-    body = ""\" ++ [233]%N ++ runes_of_ascii """
-}
-
-packet pack {
-    /// triple
-    @lengthOf(matchKey)
-    char[3] a1,
-    @leftPad()
-    @calculatedFrom(""it's"")
-    repeat f32a {
-        zchar[00] lengthOf,
-        stringy u8x,
-        As {
-            A @calculatedFrom(""abc""),
-            match u8x as crc {
-                65535 : trueish,
-                ""a	b"" : matchKey,
-                // " ++ [128512]%N ++ runes_of_ascii " emoji
-            },
-        },
-        trueish @calculatedFrom(""\n"") `say ""hi""`,
-    },
-}
-
-packet stringy {
-    char[4294967296] u8x,
-}")).
-Eval vm_compute in ("<<<M494>>>" ++ check (runes_of_ascii "packet leftPad //x
-{uint16 x , lengthOf // a // b
-chars `// not a comment` , @calculatedFrom( ""a\\"") repeat
-char[] As`{ , }`
-, metadata
-@calculatedFrom(
-    ""// no comment"" ),
-uint32 f32a`
-`
-, @tag( // @lengthOf(
-255) repeat trueish `doc` ,
-char[] trueish
-@lengthOf(
-len )
-,int16
-i64_ ,
-@calculatedFrom( ""\n""
-)
-i8i8 `" ++ [28040; 24687; 31867; 22411]%N ++ runes_of_ascii "`  ,
-    } root
-    packet crc { repeat uint8x	packetx, match
-u8x as T {
-0
-: crc,1  : T ,
-    [ ""a\\""// c
-, 0123456789 , 00 ] : chars ,	7 :
-T //	t
-,	}// a // b
-,
-roots  @lengthOf(	lengthOf
-    ) `two words`
-    , match
-rootA as A{
-10
-    : x ,
-    }, crc @calculatedFrom( ""a	b""
-    )
-    , chars {
-match lengthOf as Header
-{4294967296 :// c
-zchar
-, [4294967296 ,
-""a\\""
-    ]: asx ,}
-,_x  @calculatedFrom(
-    ""\" ++ [233]%N ++ runes_of_ascii """)`tab	here` // a // b
-, },} //
-MetaData asx { zchar[
-    42	] uint8x
-// `tick` ""quote"" 'q'
-// `tick` ""quote"" 'q'
-, uint8
-    Logon //x
-`// not a comment` , } MetaData
-    o
-//	t
-//x
-{ u16 // " ++ [27880; 37322]%N ++ runes_of_ascii "
-_x , x_y_z float `crlf
-line`,BodyLength calculatedFrom
-    `tab	here` ,
-    uint16
-MetaDataX , }
-")).
-Eval vm_compute in ("<<<M1297>>>" ++ check (runes_of_ascii "packet packetx{ stringy{ repeat  matchKey
-    { match
-    falsey as matchKey
-{ 0123456789 :
-float ,
-[
-""abc"" ] :u128
-// " ++ [27880; 37322]%N ++ runes_of_ascii "
-// " ++ [128512]%N ++ runes_of_ascii " emoji
-""x y"" :// " ++ [27880; 37322]%N ++ runes_of_ascii "
-i8i8 } , match  falsey as Foo { 65535// " ++ [128512]%N ++ runes_of_ascii " emoji
-:trueish,
-} ,
-    },  char[]  roots@calculatedFrom(
-    """ ++ [28040; 24687]%N ++ runes_of_ascii """), zchar[ 0123456789
-// " ++ [27880; 37322]%N ++ runes_of_ascii "
-// `tick` ""quote"" 'q'
-]i64_ ,	zchar[ 42 ] MetaDataX
-@lengthOf( len  )
-,  }
-, pack @lengthOf(  crc)//x
-, @tag( 65535 )
-    @leftPad	(
-) @lengthOf(
-    asx ) u8x {repeat uint64 Pad, x_y_z _x `
-`, }
-, MetaDataX stringy,
-    // trailing space 
-    @lengthOf( BodyLength ) string calculatedFrom
-@calculatedFrom(""\n"" )
-    `line1
-line2` , u32
-u8x , @tag(
-    007
-//
-// c
-)
-//
-//
-@lengthOf( // packet A { u8 x, }
-asx
-    ) repeat uint8x { match  float
-as // @lengthOf(
-As{ [ ""1"" ,"""" , 255
-,
-255 ,
-007 , ""1""// " ++ [27880; 37322]%N ++ runes_of_ascii "
-]
-: rootA""1""
-    : msg_type // c
-,
-65535: f32a , ""x y""
-:
-    //
-    leftPad}
-    , }
-    // trailing space 
-    , u8 asx `u8 x,`, len `it's`,}
-//x
-/// triple
-options {
-falsey =
-true }
-")).
-Eval vm_compute in ("<<<M4170>>>" ++ check (runes_of_ascii "//x
-packet u8x {
-    @lengthOf(As)
-    repeat char[4294967296] int `{ , }`,
-    repeat int8 len `two words`,
-}
-
-root packet tag {
-}
-
-root packet rootA {
-    o @calculatedFrom(""""),
-    leftPad i64_ `it's`,// " ++ [27880; 37322]%N ++ runes_of_ascii "
-    @tag(7)
-    float,
-    int32 x_y_z,
-    repeat roots {
-        zchar[10] a1,
-        f32a options1 `crlf
-        line`,
-        match _x as zchar {
-            1 : u8x,
-            ""// no comment"" : float,
-            [4294967296, 10, """ ++ [233]%N ++ runes_of_ascii "t" ++ [233]%N ++ runes_of_ascii """, """ ++ [28040; 24687]%N ++ runes_of_ascii """, 1] : u128,
-            [""\" ++ [233]%N ++ runes_of_ascii """, 42] : stringy,
-            [1, ""\n""] : falsey,
-        },
-        string charz @calculatedFrom(""""),
-    },
-    char[] options1 `
-    `,
-    //	t
-    /// triple
-    u8x {
-        repeat msg_type matchKey `u8 x,`,
-    },
-    A @lengthOf(pack),
-    i64 stringy,
-}
-
-packet i8i8 {
-    i64_ u128,
-    @lengthOf(u8x)
-    repeat float64 f32a,
-    @calculatedFrom(""`tick`"")
-    pack `" ++ [233]%N ++ runes_of_ascii "`,
-    uint64 Z9_ @calculatedFrom("""") `tab	here`,
-}")).
-Eval vm_compute in ("<<<M163>>>" ++ check (runes_of_ascii "packet
-    // `tick` ""quote"" 'q'
-    u8x {} packet calculatedFrom
-    {
-    i8i8
-len
-,
-    match lengthOf as leftPad
-{ 007
-    : crc
-, ""abc"": o 10 : falsey
-    } , repeat  i8
-metadata  , @calculatedFrom(""" ++ [28040; 24687]%N ++ runes_of_ascii """ ) repeat int16
-leftPad
-    // trailing space 
-    ``
-    ,BodyLength
-    @calculatedFrom(  ""a\\""
-    ) ,
-char[] f32a,
-    tag// packet A { u8 x, }
-rootA
-, @rightPad (
-    // " ++ [27880; 37322]%N ++ runes_of_ascii "
-    ' ' ) @tag( 007 ) match o as
-    // " ++ [27880; 37322]%N ++ runes_of_ascii "
-    _x { [ 1
-    // " ++ [27880; 37322]%N ++ runes_of_ascii "
-    ,
-""a	b""
-, ""1"" ,
-00 ,7
-// " ++ [128512]%N ++ runes_of_ascii " emoji
-//x
-,""" ++ [233]%N ++ runes_of_ascii "t" ++ [233]%N ++ runes_of_ascii """
-    ,
-    // c
-    7 ,00
-    ]
-    : Foo ,
-    // " ++ [27880; 37322]%N ++ runes_of_ascii "
-    ""\" ++ [233]%N ++ runes_of_ascii """// @lengthOf(
-:  matchKey
-    ,},//x
-@rightPad (	'\x00' )string msg_type	, }
-packet  trueish {u8x
-``
-, @lengthOf( Header
-    )
-    repeat int64 int	`` ,
-} MetaData matchKey	{ string msg_type	, zchar[
-    //	t
-    4294967296
-]
-repeatCount `it's`
-, u8
-crc
-, zchar
-o ,int64 asx
-, }root
-packet chars{
-    }
-")).
-Eval vm_compute in ("<<<M989>>>" ++ check (runes_of_ascii "packet int
-// a // b
-// @lengthOf(
-{i16 Logon @calculatedFrom(
-    ""a\\"" ) ,  repeat
-calculatedFrom	`// not a comment` , @calculatedFrom(
-    // @lengthOf(
-    ""CRC32"" ) Z9_ charz , @lengthOf(  Z9_) /// triple
-matchKey  `u8 x,` , } MetaData asx { }packet
-Packet {
-    @tag( 65535  ) options1, int @lengthOf(
-metadata
-) `it's`,
-    //x
-    u8x{ char[00 ] Logon ,
-repeat  i32 T
-`// not a comment` , chars { float64
-msg_type@lengthOf(
-body	), f64 Z9_ ,
-// a // b
-// @lengthOf(
-u16 string_
-@lengthOf( int )`doc`	,//x
-repeatCount
-    @calculatedFrom( ""x y""	),} , }, match A/// triple
-as	u { [
-    ""packet"" , ""x y"" ] : f32a ,
-[
-65535 /// triple
-,00 ] :stringy 255 : pack
-    ,
-[ 0 , ""`tick`""
-    ] :
+{
+u8 
 x
-    ,
-    1 : matchKey
-, } , } packet
-    roots{
-@calculatedFrom( ""\n"" ) char[
-65535
-    // a // b
-    ] Packet , }
-")).
-Eval vm_compute in ("<<<M3824>>>" ++ check (runes_of_ascii "  packet
-    leftPad
-{ @tag( 1
-)
-    i8  // a // b
-crc
-
-    , float64	packetx `" ++ [233]%N ++ runes_of_ascii "`
 
 ,
-	lengthOf	@lengthOf(	charz
-        // trailing space 
-  )	,
-repeat
-	Packet ,  @lengthOf(u)
-	@lengthOf( 	 // " ++ [27880; 37322]%N ++ runes_of_ascii "
-  T
 
-    )
-	repeat u16 uint8x
-    `" ++ [28040; 24687; 31867; 22411]%N ++ runes_of_ascii "`
+    string
+	user, 
+repeat u16 
+codes
+
+    , 
+}  packet Logout
+
+{u16 
+reason  , 
+}
+packet
+    Empty{ } 
+root packet 
+Msg
+{u8 su8 
+, 
+uint8 luint8
+,
+    u16 su16 
+,
+uint16 luint16 ,  u32 su32
+
+, uint32
+luint32
     ,
 
+    u64
+su64,
+uint64
+    luint64 ,
+i8
+	si8
+, 
+int8 lint8,
+i16
+si16,int16
+
+    lint16
+,
+i32  si32
+    , int32  lint32
+    ,
+i64
+
+si64
+,
+	int64 lint64
+
+,
+f32
+
+sf32
+
+    ,float32
+
+lfloat32
+,
+f64
+sf64  , float64
+	lfloat64,  char[ 
+6
+	]
+fsplain
+,
+    @leftPad
+	(	'0'  ) 
+char[
+4] fs0 ,
+    @rightPad 
+(
+	'0'  )char[ 5
+    ]
+fs1
+
+, @leftPad
+    (
+' '	) 
+char[
+6
+
+]
+fs2 
+,
+@rightPad
+( ' '  )char[ 7
+]fs3
+	, @leftPad ( '\x00')	char[
+    8
+    ] fs4
+,
+@rightPad 
+(
+'\x00'	)
+
+    char[  9
+] 
+fs5 ,  @leftPad
+
+    (
+    ) char[ 10
+	]
+    fs6
+, 
+@rightPad  ()char[
+	11 ]
+	fs7
+
+    ,
+	zchar[7
+	]
+fz ,
+
+@leftPad
+	(	'0')
+    zchar[  3
+    ]
+fzl0
+
+    ,
+
+    string s1  `doc`	, 
+char[]
+
+    s2 ,
+
+Inner,	Sub 
+{
+	u8	q,
+	string  w  ,Deep  {
+
+    u16
+z,
+
+    repeat	i32 
+zs,
+    } ,
+
+    } ,
+repeat
+
+u8 ru8 
+,
+repeat  u16
+	ru16
+, repeat
+	u32  ru32 ,
+repeat
+	u64 ru64
+,
+    repeat
+i8
+    ri8
+    ,repeat i16  ri16  ,
+
+    repeat	i32	ri32 ,repeat
+    i64 
+ri64 ,
+repeat f32
+    rf32 ,
+repeat  f64  rf64 ,
+    repeat string	rstr  , repeat char[]  rstr2
+	,
+
+    repeat  char[
+3 ] 
+rfs  , repeat
 zchar[
 
-10  ] 	 // a // b
-metadata
-``
-,  match  // packet A { u8 x, }
-  trueish
-as
-	options1  {
-0123456789 
-:  rootA,
-255
-    : MetaDataX
+3  ]rfz ,
+	repeat  Inner2 ,
 
-[""a\\""
+    repeat Grp
+{ u8 k 
+,char[ 2 ] 
+v  ,	}
 
-, 	 /// triple
-      ""\n""
-	,	00	,
-10] :trueish
-,
+    ,  SeqNum
 
-    ""CRC32""
-:  uint8x
-, 0 
-: Z9_,
-""1""  // c
-: 
-i8i8 
-  // `tick` ""quote"" 'q'
-  	// packet A { u8 x, }
-	, },
-@calculatedFrom( ""it's""	)
-uint8 chars`
-` 
-,
-
-    } options
-    // @lengthOf(
-    {
-	f32a
-    =i16
-	;// " ++ [128512]%N ++ runes_of_ascii " emoji
-	u
-	=
-	""abc""
-
-} 
-MetaData chars{
-
-i16
-    lengthOf,
-Packet
-msg_type	`crlf
-line`
-    ,	}// " ++ [27880; 37322]%N ++ runes_of_ascii "
-")).
-Eval vm_compute in ("<<<M870>>>" ++ check (runes_of_ascii "packet As { //	t
-char[ 4294967296
-    ] o
-    @calculatedFrom(
-    ""// no comment"" ) , @calculatedFrom( ""\" ++ [233]%N ++ runes_of_ascii """
-)Foo{ pack@lengthOf( uint8x  ) , } ,@calculatedFrom( ""it's"") @lengthOf( Pad ) //
-@calculatedFrom( """ ++ [128512]%N ++ runes_of_ascii """ )
-    repeat
-zchar[ 42 ]BodyLength ,
-match body  as
-T
-{
-    255 //x
-: msg_type
-// @lengthOf(
-// @lengthOf(
-, 4294967296 : metadata
-    , [ ""{,}"" , 4294967296
-] :f32a
-    7  : options1
-,
-    10 :
-    float , [
-    ""abc"" ,  ""abc""
-, 0
-    //x
-    ] : u ,
-}  , repeat
-    //	t
-    int64 o `
-`  , i8i8
-    `// not a comment` , } packet x { }  packet falsey	{
-    repeat char
-    Logon	, }packet
-    _x
-    {
-@calculatedFrom( ""a\""b"")@tag( 7
-// trailing space 
-// a // b
-) @calculatedFrom( ""a\\"" ) metadata
-    // " ++ [128512]%N ++ runes_of_ascii " emoji
-    , }
-")).
-Eval vm_compute in ("<<<M1014>>>" ++ check (runes_of_ascii "packet	Header {
-char repeatCount@lengthOf(a1
-    ) , Packet @calculatedFrom( ""{,}""
-    )
-    `tab	here` ,
-    _x
-    `" ++ [28040; 24687; 31867; 22411]%N ++ runes_of_ascii "` ,  @tag(
-255 ) u32
-    string_	@calculatedFrom( ""{,}"" ) `line1
-line2`// packet A { u8 x, }
-, options1 @lengthOf( len
-)
-`u8 x,` , @leftPad ( ' ' )
-lengthOf { char[
-65535 ] options1// " ++ [128512]%N ++ runes_of_ascii " emoji
-, MetaDataX @calculatedFrom( """ ++ [28040; 24687]%N ++ runes_of_ascii """ ) , } , @leftPad  ( '\x00' ) zchar[ 255 ]
-    pack @calculatedFrom(
-    ""1"")
-`u8 x,`  , u32 Header , @lengthOf(
-    falsey)	@rightPad
-(' ' )
-//x
-//x
-@calculatedFrom(
-// " ++ [128512]%N ++ runes_of_ascii " emoji
-/// triple
-""a\\"" ) msg_type , }
-    root packet chars{
-} options {}MetaData Pad{
-    string
-    // " ++ [128512]%N ++ runes_of_ascii " emoji
-    _x
-`{ , }` ,  Packet u128, zchar[
-4294967296 ] A
-    ``
-, }")).
-Eval vm_compute in ("<<<M4327>>>" ++ check (runes_of_ascii "packet x_y_z {
-    @leftPad()
-    int8 x_y_z,
-    @lengthOf(f32a)
-    repeat char[7] len,
-    int64 matchKey @calculatedFrom(""// no comment""),
-    @lengthOf(roots)
-    @lengthOf(MetaDataX)
-    int32 Packet,// a // b
-    @rightPad(' ')
-    i8i8 {
-        char Packet @lengthOf(crc) `" ++ [28040; 24687; 31867; 22411]%N ++ runes_of_ascii "`,
-    },
-    @calculatedFrom("""")
-    repeat zchar[255] i64_,
-    @tag(0123456789)
-    Logon,
-    @lengthOf(options1)
-    int32 Header,
-    @leftPad()
-    int64 crc,
-    @lengthOf(As)
-    match trueish as BodyLength {
-        ""\" ++ [233]%N ++ runes_of_ascii """ : x,
-        0123456789 : stringy,
-        [255, 0, """ ++ [128512]%N ++ runes_of_ascii """, ""packet""] : _x,
-        ""packet"" : o,
-        42 : stringy,
-        ""abc"" : Logon,
-    },
-}")).
-Eval vm_compute in ("<<<M375>>>" ++ check (runes_of_ascii "packet zchar
-{BodyLength x // `tick` ""quote"" 'q'
-, // trailing space 
-@rightPad ('0' )
-match _x as x { [
-    """ ++ [128512]%N ++ runes_of_ascii """ ] : falsey  , 65535
-:  chars 0 : falsey , [ ""packet""
-    ] :// c
-metadata	0 : repeatCount,00//
-:  packetx ,
-} , } packet crc  { match body
-//x
-//x
-as len {
-7:
-    leftPad
-,007 : x_y_z , 00
-:
-    x_y_z, [ 0, 10 ,
-10 , //	t
-10	] :	calculatedFrom // packet A { u8 x, }
-, ""packet"" : calculatedFrom } , @leftPad ( '0' ) @tag(
-4294967296
-    ) match u128 // c
-as trueish
-{	3
-: i64_
     ,
-    }, char[255
-]o @lengthOf(leftPad
+	SeqNum seq2 
+,
+	repeat
+	SeqNum 
+seqs,
+	Symbol
+
+,
+	AltSymbol
+	alt
+
+    , ZSym
+,	Note	,
+repeat	Symbol
+syms
+,Price
+    px
+,	u16
+MsgType
+    ,
+
+    u32
+
+    BodyLen
+
+    @lengthOf( Body )
+,  match 
+MsgType as Body
+{ 
+1  :
+
+    Logon,
+[	2
+	, 3 ] :
+    Logout ,
+
+7: Logon,
+    9  :Empty ,}
+
+    ,u32
+
+    Checksum
+
+@calculatedFrom(""CRC32""
+    ) ,}
+
+")).
+Eval vm_compute in ("<<<M5>>>" ++ check (runes_of_ascii "root
+packet zchar {
+repeatCount // a // b
+@lengthOf(  asx )	, match
+string_ as o// @lengthOf(
+{ 7 :packetx
+    ,
+    7 : Pad},// packet A { u8 x, }
+zchar[ 65535 ]
+    T
+@calculatedFrom( /// triple
+""" ++ [128512]%N ++ runes_of_ascii """
+)
+    , tag @lengthOf( // " ++ [27880; 37322]%N ++ runes_of_ascii "
+u ) `crlf
+line`,
+    @calculatedFrom(
+    // " ++ [128512]%N ++ runes_of_ascii " emoji
+    """" ) _x	@calculatedFrom(// @lengthOf(
+""a	b"" )
+`// not a comment` ,match Z9_ as float { 0123456789 : calculatedFrom, ""{,}"":u //	t
+} , @leftPad( ) @tag( 255	) @lengthOf(i8i8
+    ) match
+tag as
+    trueish { 4294967296:	uint8x
+    ,[ //x
+65535 ] : u8x ,	10 : i64_,
+""""
+    :metadata
+    } , int64 T , } root packet len { @tag(	0) Logon ,
+@tag(255) repeat u64 packetx `it's`
+    , @tag(
+    4294967296 )
+zchar[007 ]repeatCount `a\` , char[ 4294967296
+]
+// " ++ [128512]%N ++ runes_of_ascii " emoji
+// packet A { u8 x, }
+asx @calculatedFrom(
+""it's"" ), }	root packet asx {	uint16 options1@lengthOf(
+    matchKey ) `it's`	, }	root //
+packet
+Logon{ @lengthOf( asx) @calculatedFrom(  ""packet""
+)	Z9_ @calculatedFrom(// " ++ [128512]%N ++ runes_of_ascii " emoji
+""" ++ [28040; 24687]%N ++ runes_of_ascii """)
+    ,
+@tag(	007
+    /// triple
     )
-`u8 x,` , } MetaData o {float
-roots ,
-    x_y_z MetaDataX , packetx zchar
-    , }")).
-Eval vm_compute in ("<<<M938>>>" ++ check (runes_of_ascii "options {	o/// triple
-= '0'
-; } packet // @lengthOf(
-u128	{
-// @lengthOf(
+zchar[0123456789 ] i64_ ,
+msg_type`line1
+line2` , repeat zchar[
+007 ]Pad
+`
+`	, falsey {
+    chars lengthOf ``
+    ,	match Header as lengthOf
+    {
+""" ++ [233]%N ++ runes_of_ascii "t" ++ [233]%N ++ runes_of_ascii """	: falsey 42:
+uint8x , [ 007
+,""abc""
+    ,
+// c
+// a // b
+""abc"" ,""a\\""  ,
+65535 // c
+,""a\""b"" ,
+42, ""{,}"" ]:charz } , int64 //x
+Foo // c
+, Z9_@lengthOf( int )`it's`
+, }
+,
+    @rightPad
+    ( ) // trailing space 
+string As @calculatedFrom(""" ++ [28040; 24687]%N ++ runes_of_ascii """ ) ,
+    // c
+    match matchKey as repeatCount{
+4294967296 :msg_type	, """ ++ [28040; 24687]%N ++ runes_of_ascii """ : zchar 3  : u8x , """":	asx
+// trailing space 
 // `tick` ""quote"" 'q'
-@calculatedFrom(""{,}"" )
-uint16
-pack
-@calculatedFrom( """ ++ [233]%N ++ runes_of_ascii "t" ++ [233]%N ++ runes_of_ascii """)
+, } ,}
+")).
+Eval vm_compute in ("<<<M50>>>" ++ check (runes_of_ascii "//x
+packet Header
+    {
+    body
+// " ++ [27880; 37322]%N ++ runes_of_ascii "
+// " ++ [27880; 37322]%N ++ runes_of_ascii "
+@calculatedFrom(
+    ""CRC32"" )
+`it's` ,repeat
+int64//x
+msg_type // " ++ [128512]%N ++ runes_of_ascii " emoji
+,
+//	t
+//
+@tag( 0 ) zchar[ 0 //
+]
+    int
+//	t
+// @lengthOf(
+, }
+    // " ++ [128512]%N ++ runes_of_ascii " emoji
+    options { Packet=
+true
+    MetaDataX =
+""" ++ [28040; 24687]%N ++ runes_of_ascii """ A
+    = string} root packet	Logon {
+    @leftPad // " ++ [27880; 37322]%N ++ runes_of_ascii "
+('0' //x
+)Header//
+leftPad `doc` ,
+    f32a
+    {	rootA @lengthOf( calculatedFrom )	, int8
+Packet `line1
+line2` , } , repeat calculatedFrom
+    { // `tick` ""quote"" 'q'
+match
+packetx as len { 1:matchKey ,
+0123456789 :repeatCount ,
+""\" ++ [233]%N ++ runes_of_ascii """ :
+float , 255:
+    MetaDataX
+, },} ,
+//x
+// " ++ [27880; 37322]%N ++ runes_of_ascii "
+leftPad {  repeat roots{ //	t
+roots
+@calculatedFrom(/// triple
+""abc"" ),int32
+BodyLength @calculatedFrom( ""packet"" )
+,
+}	, match repeatCount as
+matchKey { ""abc"" : u128 , """ ++ [128512]%N ++ runes_of_ascii """ : a1
+, ""a\\""
+:rootA ,	[  3,3 ]// c
+:
+x_y_z	007 :Foo
+    } ,
+}
+, // c
+repeat rootA	matchKey	`it's` //	t
+,	a1
+    @calculatedFrom(""x y"" )  `line1
+line2` ,int	,
+    @tag(
+// trailing space 
+//x
+65535) match metadata as	As
+{ ""x y"": Foo	,//x
+[ // `tick` ""quote"" 'q'
+""x y"" ]:
+    tag
+//
+// a // b
+, 3
+    : pack } ,repeat int8 charz ,char[] body , }
+options {
+    MetaDataX = char[ 0 ] ; } // a // b")).
+Eval vm_compute in ("<<<M253>>>" ++ check (runes_of_ascii "options{
+} packet matchKey { repeat
+int32 packetx, zchar[
+    10
+    //x
+    ] Packet
+    ,@lengthOf(string_
+) @tag( 007 ) @tag( 255 )// @lengthOf(
+Z9_ @calculatedFrom( """ ++ [28040; 24687]%N ++ runes_of_ascii """ ) ,
+@lengthOf(
+// `tick` ""quote"" 'q'
+// `tick` ""quote"" 'q'
+asx
+) @calculatedFrom(
+    // trailing space 
+    ""CRC32"" )
+string
+_x,
+    @calculatedFrom( """"
+    ) @lengthOf(
+trueish)x , @leftPad (
+)
+// `tick` ""quote"" 'q'
+/// triple
+zchar[ 4294967296 ]
+    float , @lengthOf(
+    // trailing space 
+    u128
+    )//	t
+Logon{repeat char[]x `u8 x,`, // packet A { u8 x, }
+} , @tag(
+1) f64 Z9_ ,
+u32 i64_
+`crlf
+line`  , @rightPad
+// `tick` ""quote"" 'q'
+// @lengthOf(
+( '\x00'	) @leftPad (	) repeat float32
+uint8x , }
+root packet
+u128
+    // `tick` ""quote"" 'q'
+    { i32
+    charz //	t
+@lengthOf( crc
+) `u8 x,`  ,// a // b
+@tag(
+65535 // " ++ [128512]%N ++ runes_of_ascii " emoji
+)// trailing space 
+@lengthOf( f32a ) repeat// " ++ [27880; 37322]%N ++ runes_of_ascii "
+Logon
+`{ , }`
+    , @rightPad (
+    ' ' ) @tag(65535
+)
+    repeat trueish , i32
+lengthOf
+    // `tick` ""quote"" 'q'
+    , }")).
+Eval vm_compute in ("<<<M1840>>>" ++ check (runes_of_ascii "packet Pad {
+    @tag(65535)
+    repeat char[4294967296] o `u8 x,`,
+    @calculatedFrom(""x y"")
+    metadata @lengthOf(repeatCount) `tab	here`,
+}
+
+packet u128 {
+    // packet A { u8 x, }
+    // " ++ [128512]%N ++ runes_of_ascii " emoji
+    repeat zchar[10] _x,/// triple
+}
+
+options {
+    /// triple
+    msg_type = true;
+}
+
+packet tag {
+    // c
+    @tag(7)
+    i32 f32a @lengthOf(u8x) `two words`,
+    string Foo @lengthOf(Foo),
+    @rightPad('0')
+    match As as crc {
+        """" : float,
+        //	t
+    },
+    repeat i16 i8i8,
+    @rightPad('0')
+    repeat u128 {
+        i64 tag @calculatedFrom(""" ++ [28040; 24687]%N ++ runes_of_ascii """),
+        i8i8 @calculatedFrom(""{,}"") `it's`,
+        repeat string rootA,
+    },
+    repeat string chars,
+    asx,
+    match calculatedFrom as calculatedFrom {
+        ""a\""b"" : Logon,
+        ""a	b"" : asx,
+    },
+    char zchar @calculatedFrom(""1"") `say ""hi""`,
+}")).
+Eval vm_compute in ("<<<M36>>>" ++ check (runes_of_ascii "packet  int {@tag( 00
+) float	,
+@leftPad( '0'
+)@calculatedFrom(""" ++ [28040; 24687]%N ++ runes_of_ascii """ ) match crc
+as body
+    {""`tick`"" : msg_type} // @lengthOf(
+,
+Logon
+,repeat u8x, // " ++ [27880; 37322]%N ++ runes_of_ascii "
+} packet MetaDataX { }packet string_ {
+repeat //
+Header Header
+, // trailing space 
+} packet
+A{ @rightPad // " ++ [27880; 37322]%N ++ runes_of_ascii "
+( '\x00' // trailing space 
+) @leftPad (
+    ' ' ) repeat uint64
+    matchKey // trailing space 
+, f32 len // @lengthOf(
+, // trailing space 
+repeat
+tag
+{i64
+// @lengthOf(
+// " ++ [27880; 37322]%N ++ runes_of_ascii "
+roots
+    // " ++ [27880; 37322]%N ++ runes_of_ascii "
+    @lengthOf( metadata ), }
+, @tag(
+65535
+    ) char[ //
+00 ]
+// a // b
+/// triple
+a1
+    ,repeat i16 i8i8 ,char[
+3 ]int @calculatedFrom(
+""a\\"" ) , // a // b
+@calculatedFrom( """ ++ [28040; 24687]%N ++ runes_of_ascii """) Pad// " ++ [128512]%N ++ runes_of_ascii " emoji
+@lengthOf(
+stringy ) ,/// triple
+}
+")).
+Eval vm_compute in ("<<<M276>>>" ++ check (runes_of_ascii "packet zchar { msg_type ,
+//
+// `tick` ""quote"" 'q'
+@tag( 65535 ) repeat float32 len,
+    @lengthOf(
+// " ++ [27880; 37322]%N ++ runes_of_ascii "
+// `tick` ""quote"" 'q'
+crc )	lengthOf
+    //
+    {
+repeat float `say ""hi""` ,}	, u32 // a // b
+Packet
+@lengthOf( i8i8// a // b
+)  `
+`
+// packet A { u8 x, }
+// packet A { u8 x, }
+,
+i8i8 // a // b
+, u32 calculatedFrom  @lengthOf( BodyLength //x
+)`a\` , @lengthOf( Logon// " ++ [128512]%N ++ runes_of_ascii " emoji
+) match MetaDataX
+as	Foo  { [
+""\n"" ,
+255 ] :Packet , 3: o
+    ,
+[007] : T, }
+, match pack as A { """ ++ [28040; 24687]%N ++ runes_of_ascii """
+: _x 007	:
+//x
+// " ++ [128512]%N ++ runes_of_ascii " emoji
+metadata,
+255 :
+As
+    ,
+    7 :charz, 10 : len, } , f32 len
+, @leftPad ('\x00'  )float32 trueish , }
+")).
+Eval vm_compute in ("<<<M178>>>" ++ check (runes_of_ascii "
+packet
+// packet A { u8 x, }
+// " ++ [27880; 37322]%N ++ runes_of_ascii "
+matchKey {} packet
+    string_ { matchKey @lengthOf(
+asx)
+    ,@rightPad ( ' '
+) metadata
+,
+// a // b
+// @lengthOf(
+o //
+chars ,  uint16 tag `u8 x,` ,
+repeat  float32 Logon  `two words` , /// triple
+matchKey	@calculatedFrom( ""a	b""
+)`doc`
+    ,
+repeat packetx
+a1 ,} MetaData Packet //
+{
+char[]
+    pack, string  zchar ,zchar[
+//	t
+// trailing space 
+1 ] x_y_z, int64
+    charz
+`say ""hi""`, u32
+lengthOf
+    `doc`
+,}
+options
+    { a1
+= int16 ; crc =' ';tag = char[ 42]
+leftPad
+    = true ; }")).
+Eval vm_compute in ("<<<M143>>>" ++ check (runes_of_ascii "root packet crc {@calculatedFrom(
+""" ++ [128512]%N ++ runes_of_ascii """)
+BodyLength{x_y_z i8i8
+//
+//
+, int32 uint8x
+`two words` ,	rootA tag , zchar[
+7] matchKey
+    `" ++ [233]%N ++ runes_of_ascii "` ,} , T { x@calculatedFrom( ""a	b"" )
+`// not a comment` ,zchar[ // " ++ [128512]%N ++ runes_of_ascii " emoji
+42 ] /// triple
+A
+, match chars
+as
+    //x
+    len {""packet"" :crc 3//x
+:
+chars [
+0123456789 , ""packet"" ]
+    : pack	[""packet""
+,
+00// " ++ [27880; 37322]%N ++ runes_of_ascii "
+,
+    7 ,""" ++ [28040; 24687]%N ++ runes_of_ascii """, 3
+,  ""packet"",
+    42, 0123456789
+    ] :
+repeatCount	""{,}"" :
+chars
+    ,/// triple
+} ,
+} ,
+}")).
+Eval vm_compute in ("<<<M1526>>>" ++ check (runes_of_ascii "packet  Frame
+{
+u8
+
+    HK
+
+    ,u8 BK
+,  u8 
+TK ,match HK as
+
+Hdr
+    {	1
+    :
+	HdrA
+
+    ,
+2
+
+:
+HdrB
+    ,},match
+
+    BK  as
+Body	{  1 : BodyA ,
+2
+	: BodyB,
+},match
+TK
+	as Trl
+{ 
+1: TrlA ,}
+
+,	}
+packet
+
+HdrA 
+{
+u8 a
+,
+
+    }
+
+packet
+HdrB 
+{ u16
+    b
+,	}	packet BodyA  {	u32 c
+,}packet  BodyB{  u64 d
+
 , }
 packet
-A { //x
-u8 chars@lengthOf( BodyLength )
-    ,
-    lengthOf @calculatedFrom(//x
-""// no comment""
-    ) , x_y_z{ string
-    Pad  `" ++ [233]%N ++ runes_of_ascii "` ,
-    // " ++ [27880; 37322]%N ++ runes_of_ascii "
-    len{ zchar[ 0123456789 ]
-T
-    ,
-    match // a // b
-u128 as	metadata  { 3 : u128 , ""\n"" :x [ """ ++ [233]%N ++ runes_of_ascii "t" ++ [233]%N ++ runes_of_ascii """,
-//
-// " ++ [27880; 37322]%N ++ runes_of_ascii "
-""packet""
-    ] : // @lengthOf(
-tag 10
-: options1 , ""abc""
-    : // trailing space 
-u ,	},} ,tag
-@calculatedFrom(
-    // packet A { u8 x, }
-    """" )
-`it's`	, } , } // " ++ [27880; 37322]%N)).
-Eval vm_compute in ("<<<M3948>>>" ++ check (runes_of_ascii "packet packetx {
-    @calculatedFrom(""packet"")
-    // " ++ [27880; 37322]%N ++ runes_of_ascii "
-    @calculatedFrom(""// no comment"")
-    @leftPad('0')
-    //	t
-    Z9_ T,
-    leftPad uint8x,
-    @tag(4294967296)
-    leftPad {
-        roots {
-            char options1,
-        },
-        match Pad as int {
-            [10] : roots,
-            [
-                ""CRC32"", ""1"", 3, 7, 0,
-                0, ""CRC32"", 7
-            ] : Packet,
-            1 : tag,
-            1 : matchKey,
-            [42] : _x,
-        },
-        repeat tag {
-            metadata `" ++ [233]%N ++ runes_of_ascii "`,
-        },//	t
-        u `a\`,
-    },
-}")).
-Eval vm_compute in ("<<<M3982>>>" ++ check (runes_of_ascii "  root packet
-    Pad {
+    TrlA	{ u8
+e,
+}root
 
-@tag(65535 )  @lengthOf(
-
-matchKey
-
-    ) //
-
-int32
-	pack  ,// `tick` ""quote"" 'q'
-
-zchar[  65535
-]
-charz
-@calculatedFrom(""""
-	)
-
-    `crlf
-line`
-    ,
-    }
-
-    MetaData
-options1
-
-    {
-charz crc
-
-    //
-	  // " ++ [27880; 37322]%N ++ runes_of_ascii "
-  ,body packetx`// not a comment`
-
-,
-}	packet
-
-string_ {
-
-    char[7 // @lengthOf(
-  ]  T 
-@calculatedFrom( ""\" ++ [233]%N ++ runes_of_ascii """
-
-)// c
-  ,
-
-    @leftPad ('\x00' 
-)
-	@calculatedFrom(
-""packet""
-    ) @tag(42
-        // " ++ [128512]%N ++ runes_of_ascii " emoji
-	// " ++ [128512]%N ++ runes_of_ascii " emoji
-)
-    string	string_
-@calculatedFrom(
-    """ ++ [28040; 24687]%N ++ runes_of_ascii """
-	) `a\`
-	,
-} ")).
-Eval vm_compute in ("<<<M1150>>>" ++ check (runes_of_ascii "
 packet
-    // " ++ [27880; 37322]%N ++ runes_of_ascii "
-    chars {u8x metadata	`u8 x,` , @lengthOf( o
-) leftPad /// triple
-@lengthOf( leftPad)
-    `line1
-line2` , match  falsey as o //x
-{[ ""\" ++ [233]%N ++ runes_of_ascii """
-    ,""a\\"",00]: falsey,0 : u	""a\""b"" :	roots , """ ++ [128512]%N ++ runes_of_ascii """ :
-Foo, [
-    """ ++ [233]%N ++ runes_of_ascii "t" ++ [233]%N ++ runes_of_ascii """ , ""a\""b""//x
-, 7  ]	: // a // b
-string_
-    // a // b
-    ""a\\"" :
-    string_	,
-    },@calculatedFrom( ""a	b"" ) repeat body  `a\` , }options {stringy = 0 }packet
-    // a // b
-    chars {
-charz@calculatedFrom( ""a	b"" ) ,uint32 lengthOf, int8
-    repeatCount ,
-uint16 // @lengthOf(
-o`
-` ,
-    }")).
-Eval vm_compute in ("<<<M950>>>" ++ check (runes_of_ascii "root
-packet // " ++ [128512]%N ++ runes_of_ascii " emoji
-msg_type
-    {
-zchar[ 1  ] float
-    @lengthOf( A )
-    // packet A { u8 x, }
-    , u8x {// @lengthOf(
-repeat trueish {match
-    crc as Logon {
-    [ 1, 7 ]
-: // @lengthOf(
-A
-,} , } ,  } ,@tag(255
-    // c
-    ) match A as options1 { 7:body ,
-    [	""x y"", 3 /// triple
-, 0 ,7  , 0123456789] : tag ,
-    ""x y"" : crc
-    }	,	match stringy// packet A { u8 x, }
-as Z9_ { ""it's""
-// a // b
-// " ++ [128512]%N ++ runes_of_ascii " emoji
-: x_y_z
-    //
-    ,	1
-:pack }
-, //	t
-}
-MetaData repeatCount
-    {
-}
-")).
-Eval vm_compute in ("<<<M593>>>" ++ check (runes_of_ascii "root packet matchKey // trailing space 
-{ // a // b
-u8 roots `two words` , // " ++ [27880; 37322]%N ++ runes_of_ascii "
-} //	t
-root packet float {	@rightPad ( '0') i8i8
-    , packetx @calculatedFrom( ""a\\""
-) ,float32
-    trueish
-    `
-`  ,
-    @calculatedFrom(
-""x y"" // c
-)
-    @lengthOf( //
-o
-// c
-/// triple
-) @lengthOf( uint8x ) i16 Logon
-    , @leftPad (
-    ' ' ) @lengthOf(
-zchar	)
-@lengthOf(
-    x_y_z )
-o
-matchKey
-    `" ++ [233]%N ++ runes_of_ascii "` ,
-    match u8x	as Z9_  { ""a\""b"":// " ++ [27880; 37322]%N ++ runes_of_ascii "
-_x , } , crc
-BodyLength `it's` ,}
-//
-")).
-Eval vm_compute in ("<<<M4191>>>" ++ check (runes_of_ascii "  root packet //x
-  pack
-{
-    match  matchKey//	t
-    	as  int	// @lengthOf(
-	{
-    00
-
-:metadata , ""a\\"" 
-:
-	o 
-,""// no comment""
-
-    :  // `tick` ""quote"" 'q'
-	x
-	,
-	[  ""packet"" 
-]
-	:
-A	,	[  ""\n"" , 0123456789 
-,00 ,""// no comment""
-
-, 007 ,
-255 , 1
-
-, 	 // c
-  0 ]
-    // a // b
-    :  metadata
-	,
-
-[ 00
-	]
-:
-	Pad	,
-	}
-
-    , } // @lengthOf(
-    MetaData
-tag{  uint64 
-i64_
-    `doc` 
-,
-}	packet 
-BodyLength  {
-	repeat
-
-    u32 u128
-
-,} ")).
-Eval vm_compute in ("<<<M3874>>>" ++ check (runes_of_ascii "MetaData metadata {
-}
-
-packet u {
-    //
-    @lengthOf(T)
-    // packet A { u8 x, }
-    @lengthOf(u)
-    /// triple
-    @leftPad('0')
-    repeat uint8 x_y_z `" ++ [28040; 24687; 31867; 22411]%N ++ runes_of_ascii "`,
-}
-
-root packet A {
-    @tag(10)
-    repeat zchar[0] asx `doc`,
-    char[7] float @lengthOf(BodyLength) `crlf
-    line`,
-    zchar[0123456789] u128,
-    @rightPad()
-    repeat zchar[255] Packet ``,
-    BodyLength Pad,
-    @tag(1)
-    zchar[10] float @lengthOf(roots),
-}")).
-Eval vm_compute in ("<<<M617>>>" ++ check (runes_of_ascii "root packet BodyLength { int8 asx ``
-    , match stringy  as falsey
-    { 7
-:stringy } , Header `u8 x,` ,match string_  as falsey{ 007 :
-    BodyLength 65535:	roots [
-//
-//x
-10,
-00, ""a\""b""  , 0123456789 ,	3
-    , /// triple
-""" ++ [233]%N ++ runes_of_ascii "t" ++ [233]%N ++ runes_of_ascii """, ""x y"" , ""abc""
-] :
-crc , 0123456789
-    : f32a
-, 1
-    :
-    Logon,  [""CRC32"" // a // b
-,
-""a	b"" ,
-    65535 , ""1"" ,// trailing space 
-""1""	,
-65535 ] :
-zchar //	t
-,  } , i64_ , } //	t")).
-Eval vm_compute in ("<<<M4500>>>" ++ check (runes_of_ascii "options {
-    T = zchar[0123456789]
-}
-
-root packet Pad {
-    match repeatCount as pack {
-        [
-            3, 255, ""// no comment"", """ ++ [28040; 24687]%N ++ runes_of_ascii """, ""it's"",
-            255, ""it's""
-        ] : packetx,
-    },
-    @calculatedFrom(""CRC32"")
-    @lengthOf(Header)
-    @lengthOf(u)
-    match As as calculatedFrom {
-        [255, 00] : Z9_,
-        [""a	b""] : Header,
-    },
-    x_y_z,
-    // packet A { u8 x, }
-}")).
-Eval vm_compute in ("<<<M683>>>" ++ check (runes_of_ascii "MetaData float { u8 Packet
+	Msg
+	{  Frame
     ,
-    string i64_ `" ++ [28040; 24687; 31867; 22411]%N ++ runes_of_ascii "`
-, charz pack , char
-rootA ,char[0123456789 ] msg_type ,
-    uint8 calculatedFrom , } packet	Pad
-    { }
-    root packet len{ // c
-matchKey
-    @calculatedFrom(""a\""b""
-    ) `u8 x,`
-, //x
-@leftPad
-    ( ) match roots as u128{ [  4294967296
-    // packet A { u8 x, }
-    , 007] :body , } , charz ,
-    // trailing space 
-    }")).
-Eval vm_compute in ("<<<M3712>>>" ++ check (runes_of_ascii "options {
-    Foo = ""packet"";
-}
+	u8
+x, }")).
+Eval vm_compute in ("<<<M1843>>>" ++ check (runes_of_ascii "
 
-/// triple
-//	t
-options {
-    // `tick` ""quote"" 'q'
-    x = ' ';
-}// @lengthOf(
+  // top
 
-MetaData calculatedFrom {
-    char[65535] asx,
-    zchar stringy `
-        `,
-    roots packetx,
-    zchar[3] options1,
-    float u8x,
-    char asx `doc`,
-}
+packet
 
-packet lengthOf {
-    uint16 calculatedFrom @calculatedFrom(""x y""),
-}// packet A { u8 x, }")).
-Eval vm_compute in ("<<<M1344>>>" ++ check (runes_of_ascii "packet x { @tag(7 // " ++ [27880; 37322]%N ++ runes_of_ascii "
-) @calculatedFrom(""{,}"")
-    int16
-    Packet @calculatedFrom(
-""it's""
-    ) `a\`
-    ,charz f32a// @lengthOf(
-, match metadata
-    as BodyLength{ [ 65535 , 3, 1 ,00,// `tick` ""quote"" 'q'
-""a	b""	]: // " ++ [27880; 37322]%N ++ runes_of_ascii "
-stringy , /// triple
-[ ""`tick`""
-] :
-//
-// packet A { u8 x, }
-float },
-@tag(  007 ) @tag(7)leftPad @lengthOf(pack) , }
+    // c0
+    chars 
+	    // c1
+{ 
+        // c2
+      }  
+  // c3
+	  packet
+        // c4
+MetaDataX 
+    // c5
+{
+
+    // c6
+		@tag(
+
+    // c7
+	42
+
+    // c8
+    	)
+    // c9
+		i16
+
+// c10
+string_
+
+    // c11
+    ,
+	    // c12
+    repeat 
+
+// c13
+	  x 
+    // c14
+`say ""hi""` 
+      // c15
+		, 
+	    // c16
+	} 
+	// c17
 ")).
-Eval vm_compute in ("<<<M955>>>" ++ check (runes_of_ascii "
-options { u128
-// c
-// packet A { u8 x, }
-=false
-}packet i64_
-{ @calculatedFrom( ""a	b"" ) Z9_ {
-    x_y_z`two words` , string_
-/// triple
-//x
-, }, match // trailing space 
-BodyLength as As {
-    //x
-    [
-""a\""b""]: Z9_	, } ,
-//	t
-// a // b
-char[]	asx
+Eval vm_compute in ("<<<M2013>>>" ++ check (runes_of_ascii "  options
+{ LittleEndian
+	= 
+true ;	} packet  Sub
+{ u8
+
+a  ,
+@calculatedFrom(
+    ""CRC16""	)
+
+    u64 SubSum
 ,
-    i16
-crc `doc` , } packet o
-    { @leftPad ( '\x00' ) repeat u8x
-T,
     }
+
+root  packet  Frame {u16  MsgType 
+,
+    u16	BodyLen @lengthOf(  Body 
+)
+,Sub
+
+    Body ,  string
+	note,@calculatedFrom(
+
+    ""CRC16""	)
+u64
+Checksum ,
+
+    u8
+
+    tail
+    ,  }
 ")).
-Eval vm_compute in ("<<<M1886>>>" ++ check (runes_of_ascii "MetaData
-    u { }  options {
-// c
-// @lengthOf(
-float float = int8 ;rootA =false ; As =	int16 // `tick` ""quote"" 'q'
-repeatCount
-    // trailing space 
-    =
-    int16
-; u8x =
-    //	t
-    '\x00' ; } options	{
-    repeatCount
-= 0
-u128
-    //
-    = false ; i64_
-// trailing space 
-// `tick` ""quote"" 'q'
-= '0' ; //	t
+Eval vm_compute in ("<<<M1392>>>" ++ check (runes_of_ascii "// top
+packet
+    // c0
+chars
+    // c1
+{
+    // c2
 }
-")).
-Eval vm_compute in ("<<<M1928>>>" ++ check (runes_of_ascii "MetaData
-    u { }  options {
-// c
-// @lengthOf(
-float = int8 ;rootA =false ; @tag( =	int16 // `tick` ""quote"" 'q'
-repeatCount
-    // trailing space 
-    =
-    int16
-; u8x =
-    //	t
-    '\x00' ; } options	{
-    repeatCount
-= 0
-u128
-    //
-    = false ; i64_
-// trailing space 
-// `tick` ""quote"" 'q'
-= '0' ; //	t
+    // c3
+packet
+    // c4
+MetaDataX
+    // c5
+{
+    // c6
+@tag(
+    // c7
+42
+    // c8
+)
+    // c9
+i16
+    // c10
+string_
+    // c11
+,
+    // c12
+repeat
+    // c13
+x
+    // c14
+`say ""hi""`
+    // c15
+,
+    // c16
 }
+    // c17
 ")).
-Eval vm_compute in ("<<<M2065>>>" ++ check (runes_of_ascii "MetaData
-    u { }  options {
+Eval vm_compute in ("<<<M489>>>" ++ check (runes_of_ascii "root packet tag tag { }  packet MetaDataX{char[007	]
 // c
-// @lengthOf(
-float = int8 ;rootA =false ; ' As =	int16 // `tick` ""quote"" 'q'
-repeatCount
-    // trailing space 
-    =
-    int16
-; u8x =
-    //	t
-    '\x00' ; } options	{
-    repeatCount
-= 0
-u128
-    //
-    = false ; i64_
-// trailing space 
-// `tick` ""quote"" 'q'
-= '0' ; //	t
-}
-")).
-Eval vm_compute in ("<<<M1902>>>" ++ check (runes_of_ascii "MetaData
-    u { }  options {
+/// triple
+asx  @calculatedFrom( ""a\""b""
+) `say ""hi""`// " ++ [27880; 37322]%N ++ runes_of_ascii "
+,  @tag(4294967296 )
+    char[1//x
+] packetx @calculatedFrom(""a\""b""
+    ) ,
+// " ++ [128512]%N ++ runes_of_ascii " emoji
+// a // b
+@calculatedFrom(""" ++ [233]%N ++ runes_of_ascii "t" ++ [233]%N ++ runes_of_ascii """  ) repeat pack // " ++ [27880; 37322]%N ++ runes_of_ascii "
+,
+    } // c")).
+Eval vm_compute in ("<<<M665>>>" ++ check (runes_of_ascii "root packet " ++ [65279]%N ++ runes_of_ascii " tag { }  packet MetaDataX{char[007	]
 // c
-// @lengthOf(
-float = int8 rootA; =false ; As =	int16 // `tick` ""quote"" 'q'
-repeatCount
-    // trailing space 
-    =
-    int16
-; u8x =
-    //	t
-    '\x00' ; } options	{
-    repeatCount
-= 0
-u128
-    //
-    = false ; i64_
-// trailing space 
-// `tick` ""quote"" 'q'
-= '0' ; //	t
-}
-")).
-Eval vm_compute in ("<<<M2047>>>" ++ check (runes_of_ascii "MetaData
-    u { }  options {
+/// triple
+asx  @calculatedFrom( ""a\""b""
+) `say ""hi""`// " ++ [27880; 37322]%N ++ runes_of_ascii "
+,  @tag(4294967296 )
+    char[1//x
+] packetx @calculatedFrom(""a\""b""
+    ) ,
+// " ++ [128512]%N ++ runes_of_ascii " emoji
+// a // b
+@calculatedFrom(""" ++ [233]%N ++ runes_of_ascii "t" ++ [233]%N ++ runes_of_ascii """  ) repeat pack // " ++ [27880; 37322]%N ++ runes_of_ascii "
+,
+    } // c")).
+Eval vm_compute in ("<<<M505>>>" ++ check (runes_of_ascii "root packet tag { }  MetaDataX packet{char[007	]
 // c
-// @lengthOf(
-float = int8 ;rootA =false ; As =	int16 // `tick` ""quote"" 'q'
-repeatCount
-    // trailing space 
-    =
-    int16
-; u8x =
-    //	t
-    '\x00' ; } options	{
-    repeatCount
-= 0
-u128
-    //
-    = false ; i64_
-// trailing space 
-// `tick` ""quote"" 'q'
-= '0' } //	t
-;
-")).
-Eval vm_compute in ("<<<M1878>>>" ++ check (runes_of_ascii "MetaData
-    u { }  match {
+/// triple
+asx  @calculatedFrom( ""a\""b""
+) `say ""hi""`// " ++ [27880; 37322]%N ++ runes_of_ascii "
+,  @tag(4294967296 )
+    char[1//x
+] packetx @calculatedFrom(""a\""b""
+    ) ,
+// " ++ [128512]%N ++ runes_of_ascii " emoji
+// a // b
+@calculatedFrom(""" ++ [233]%N ++ runes_of_ascii "t" ++ [233]%N ++ runes_of_ascii """  ) repeat pack // " ++ [27880; 37322]%N ++ runes_of_ascii "
+,
+    } // c")).
+Eval vm_compute in ("<<<M548>>>" ++ check (runes_of_ascii "root packet tag { }  packet MetaDataX{char[007	]
 // c
-// @lengthOf(
-float = int8 ;rootA =false ; As =	int16 // `tick` ""quote"" 'q'
-repeatCount
-    // trailing space 
-    =
-    int16
-; u8x =
-    //	t
-    '\x00' ; } options	{
-    repeatCount
-= 0
-u128
-    //
-    = false ; i64_
-// trailing space 
-// `tick` ""quote"" 'q'
-= '0' ; //	t
-}
-")).
-Eval vm_compute in ("<<<M3807>>>" ++ check (runes_of_ascii "MetaData T {
-    Foo lengthOf,
-    string packetx `// not a comment`,
-    zchar[0] metadata `crlf
-        line`,
-    x string_ `line1
-        line2`,
+/// triple
+asx  @calculatedFrom( ""a\""b""
+ `say ""hi""`// " ++ [27880; 37322]%N ++ runes_of_ascii "
+,  @tag(4294967296 )
+    char[1//x
+] packetx @calculatedFrom(""a\""b""
+    ) ,
+// " ++ [128512]%N ++ runes_of_ascii " emoji
+// a // b
+@calculatedFrom(""" ++ [233]%N ++ runes_of_ascii "t" ++ [233]%N ++ runes_of_ascii """  ) repeat pack // " ++ [27880; 37322]%N ++ runes_of_ascii "
+,
+    } // c")).
+Eval vm_compute in ("<<<M511>>>" ++ check (runes_of_ascii "root packet tag { }  packet root{char[007	]
+// c
+/// triple
+asx  @calculatedFrom( ""a\""b""
+) `say ""hi""`// " ++ [27880; 37322]%N ++ runes_of_ascii "
+,  @tag(4294967296 )
+    char[1//x
+] packetx @calculatedFrom(""a\""b""
+    ) ,
+// " ++ [128512]%N ++ runes_of_ascii " emoji
+// a // b
+@calculatedFrom(""" ++ [233]%N ++ runes_of_ascii "t" ++ [233]%N ++ runes_of_ascii """  ) repeat pack // " ++ [27880; 37322]%N ++ runes_of_ascii "
+,
+    } // c")).
+Eval vm_compute in ("<<<M647>>>" ++ check (runes_of_ascii "root packet tag { }  packet MetaDataX{char[007	]
+// c
+/// triple
+asx  @calculatedFrom( ""a\""b""
+) `say ""hi""`// " ++ [27880; 37322]%N ++ runes_of_ascii "
+,  @tag(4294967296 )
+    char[1//x
+] packetx @calculatedFrom(""a\""b""
+    ) ,
+// " ++ [128512]%N ++ runes_of_ascii " emoji
+// a // b
+@calculatedFrom(""" ++ [233]%N ++ runes_of_ascii "t" ++ [233]%N ++ runes_of_ascii """  ) repeat pack")).
+Eval vm_compute in ("<<<M2119>>>" ++ check (runes_of_ascii "options {
+    StringPrefixLenType = u16;
+    FixedStringPadChar = ' ';
 }
 
-packet repeatCount {
-    char[255] A @calculatedFrom(""a\\""),
-    float32 BodyLength @lengthOf(_x) `doc`,
-    char[] trueish @calculatedFrom(""packet""),
+packet Party {
+}
+
+packet Quote {
+    repeat Party,
+    repeat char[2] f1,
+}
+
+packet Logon {
+}
+
+root packet Cancel {
+    uint16 x,
+    zchar[6] f1,
 }")).
-Eval vm_compute in ("<<<M1200>>>" ++ check (runes_of_ascii "root packet msg_type{
+Eval vm_compute in ("<<<M1691>>>" ++ check (runes_of_ascii "// top
+root packet matchKey {
+    // c3
+    zchar[3] pack @calculatedFrom(""a	b"") `doc`,
+    // c12
+}
+
+// c13
+options {
+    // c15
+}
+
+// c16
+MetaData A {
+    // c19
+    int8 msg_type,
+    // c22
+}
+// c23")).
+Eval vm_compute in ("<<<M1272>>>" ++ check (runes_of_ascii "// top
+packet
+    // c0
+x
+    // c1
+{
+    // c2
+@rightPad
+    // c3
+(
+    // c4
+)
+    // c5
 repeat
-char[ 7 ]
-    o  `doc`,
-    @calculatedFrom( // packet A { u8 x, }
-""x y""
-    )repeat packetx tag ,
-char[]A
-    `doc`,
-    repeat
-// " ++ [128512]%N ++ runes_of_ascii " emoji
-// trailing space 
-BodyLength {
-//
-//
-int8
-As , i16 stringy , x_y_z {
-zchar[ 65535 ] matchKey
-@lengthOf( zchar ) ,}
-, }, } //")).
-Eval vm_compute in ("<<<M3592>>>" ++ check (runes_of_ascii "packet A {
+    // c6
+roots
+    // c7
+Logon
+    // c8
+`doc`
+    // c9
+,
+    // c10
+}
+    // c11
+")).
+Eval vm_compute in ("<<<M472>>>" ++ check (runes_of_ascii "packet
+    // `tick` ""quote"" 'q'
+    crc
+// packet A { u8 x, }
+//	t
+{
+u32 a1 ,
+    // trailing space 
+    roots
+charz //
+`two words`,	}
+    MetaData int {
+@tag} /// triple")).
+Eval vm_compute in ("<<<M702>>>" ++ check (runes_of_ascii "root packet len // trailing space 
+{
+// " ++ [27880; 37322]%N ++ runes_of_ascii "
+//	t
+char[10
+] ] metadata	@lengthOf( o ) `crlf
+line`,
+    @rightPad
+( ' '
+) string
+    Header @calculatedFrom( ""a\\""
+    ), }
+")).
+Eval vm_compute in ("<<<M452>>>" ++ check (runes_of_ascii "packet
+    // `tick` ""quote"" 'q'
+    crc
+// packet A { u8 x, }
+//	t
+{
+u32 a1 ,
+    // trailing space 
+    roots
+charz //
+`two words`,	}
+    MetaData int [
+} /// triple")).
+Eval vm_compute in ("<<<M478>>>" ++ check (runes_of_ascii "packet
+    // `tick` ""quote"" 'q'
+    crc
+// packet A { u8 x, }
+//	t
+{
+u32 a1 ,
+    // trailing space 
+    a" ++ [769]%N ++ runes_of_ascii "b
+charz //
+`two words`,	}
+    MetaData int {
+} /// triple")).
+Eval vm_compute in ("<<<M1996>>>" ++ check (runes_of_ascii "packet A {
+    match k as n {
+        [
+            1, 22, ""c c"", 4, 5,
+            ""f"", 7, 8, ""i"", 10,
+            11, ""l""
+        ] : B,
+        2 : C,
+    },
+}")).
+Eval vm_compute in ("<<<M1494>>>" ++ check (runes_of_ascii "packet A {
     u8 a,
 }
 packet B {
     u16 b,
 }
-packet C {
-    u32 c,
-}
-root packet M {
-    u16 Kc, u16 Kb, u16 Ka,
-    match Kc as X {
-        9 : A,
-        10 : B,
+root packet P {
+    u8 K,
+    match K as M {
+        [1, 2] : A,
+        3 : B,
+        7 : A,
     },
-    match Kb as Y {
-        2 : C,
-        1 : A,
-    },
-    match Ka as Z {
-        1 : B,
-    },
-    A, B, C,
 }
 ")).
-Eval vm_compute in ("<<<M676>>>" ++ check (runes_of_ascii "packet charz { @tag(7) repeat _x , }MetaData x	{ i32 float , f32 u8x,uint64
-rootA	`crlf
-line` , }  options{ T
-= f64 ;
-    calculatedFrom=
-true	}
-packet trueish {
-    } root
-    //	t
-    packet rootA
-{ crc _x `say ""hi""`, stringy
-    //
-    uint8x, repeat
-x_y_z`u8 x,`
-, }
-")).
-Eval vm_compute in ("<<<M3955>>>" ++ check (runes_of_ascii "
-options  { 
-  // c1
-    LittleEndian// c2
-    =
-true 
-  // c4
+Eval vm_compute in ("<<<M1461>>>" ++ check (runes_of_ascii "packet
+	B {
 
-  ; 
-    // c5
+    u8
 
-}  // c6
-    root 	 // c7a
-	// c7b
-packet 
-	    // c8
-  P {	repeat	// c11a
-// c11b
-    char 
+a ,}  root  packet  P
+	{
+    u8
+    K, 
+match
+    K
 
-// c12
-	  cs 
-    // c13
-	, u8
+    as	Body
 
-x  // c16
-      , 
-// c17
-		}	// c18a
-	// c18b
-")).
-Eval vm_compute in ("<<<M1084>>>" ++ check (runes_of_ascii "packet
-tag { int8 packetx , }packet Foo/// triple
-{//x
-repeatCount@calculatedFrom( ""x y"" /// triple
-)
-,char[00
-] As @lengthOf( a1 )
-`crlf
-line`
-,
-    @tag( 10) len {  char[	10// " ++ [128512]%N ++ runes_of_ascii " emoji
-] matchKey `" ++ [233]%N ++ runes_of_ascii "` , f32a@lengthOf( u128
-    )
-    `it's` ,
-    } ,
-}
-")).
-Eval vm_compute in ("<<<M1533>>>" ++ check (runes_of_ascii "packet
-//	t
-// trailing space 
-_x {
-// packet A { u8 x, }
-// c
-char[
-3
-    ] u8x @lengthOf(
-u8x ) ) , @calculatedFrom(""" ++ [128512]%N ++ runes_of_ascii """ // @lengthOf(
-)
-i16	Foo
-@lengthOf(	string_
-    )`doc`	, repeat	i64 metadata , @lengthOf( string_
-) i8 // c
-u  `line1
-line2`	,
-}
-")).
-Eval vm_compute in ("<<<M1671>>>" ++ check (runes_of_ascii "packet
-//	t
-// trailing space 
-_x {
-// packet A { u8 x, }
-// c
-char[
-3
-    ] u8x @lengthOf(
-u8x ) , @calculatedFrom(""" ++ [128512]%N ++ runes_of_ascii """ // @lengthOf(
-)
-i16	" ++ [252]%N ++ runes_of_ascii "ber
-@lengthOf(	string_
-    )`doc`	, repeat	i64 metadata , @lengthOf( string_
-) i8 // c
-u  `line1
-line2`	,
-}
-")).
-Eval vm_compute in ("<<<M1609>>>" ++ check (runes_of_ascii "packet
-//	t
-// trailing space 
-_x {
-// packet A { u8 x, }
-// c
-char[
-3
-    ] u8x @lengthOf(
-u8x ) , @calculatedFrom(""" ++ [128512]%N ++ runes_of_ascii """ // @lengthOf(
-)
-i16	Foo
-@lengthOf(	string_
-    )`doc`	, repeat	i64 metadata @lengthOf( , string_
-) i8 // c
-u  `line1
-line2`	,
-}
-")).
-Eval vm_compute in ("<<<M1492>>>" ++ check (runes_of_ascii "packet
-//	t
-// trailing space 
- {
-// packet A { u8 x, }
-// c
-char[
-3
-    ] u8x @lengthOf(
-u8x ) , @calculatedFrom(""" ++ [128512]%N ++ runes_of_ascii """ // @lengthOf(
-)
-i16	Foo
-@lengthOf(	string_
-    )`doc`	, repeat	i64 metadata , @lengthOf( string_
-) i8 // c
-u  `line1
-line2`	,
-}
-")).
-Eval vm_compute in ("<<<M3940>>>" ++ check (runes_of_ascii "packet packetx {
-    @leftPad('0')
-    @lengthOf(T)
-    @calculatedFrom(""\" ++ [233]%N ++ runes_of_ascii """)
-    match i64_ as tag {
-        ""abc"" : Header,
-        [7] : chars,
-        ""a	b"" : f32a,
-        ""\" ++ [233]%N ++ runes_of_ascii """ : f32a,
-        ""CRC32"" : zchar,
-        ""abc"" : Z9_,
-    },
-}")).
-Eval vm_compute in ("<<<M590>>>" ++ check (runes_of_ascii "MetaData
-As  {BodyLength roots	, uint8x
-    uint8x
-    , } packet pack
-    /// triple
-    { lengthOf `crlf
-line` , char
-i8i8 ,
-@tag( 4294967296) zchar[ 1 ] Header `say ""hi""` , @tag(4294967296 )
-    string chars,	}
-// trailing space 
-")).
-Eval vm_compute in ("<<<M716>>>" ++ check (runes_of_ascii "MetaData  u8x{ msg_type T
-    `it's` ,
-// `tick` ""quote"" 'q'
-// trailing space 
-zchar[
-    4294967296
-]	len/// triple
-, u32 chars `a\` , metadata calculatedFrom
-`{ , }`
-,
-    } packet Z9_ {	}  root packet
-Logon {}
-/// triple
-")).
-Eval vm_compute in ("<<<M677>>>" ++ check (runes_of_ascii "root packet
-    leftPad
-    { @lengthOf(
-/// triple
-//x
-_x ) // trailing space 
-stringy{
-Pad //
-{ stringy falsey , int32 metadata @lengthOf( x_y_z)
-, }, }
-, @rightPad ( )
-@tag( 10 ) BodyLength
-    `say ""hi""`
-,
-    }")).
-Eval vm_compute in ("<<<M1792>>>" ++ check (runes_of_ascii "options { trueish = ""`tick`"" ; string_= """ ++ [233]%N ++ runes_of_ascii "t" ++ [233]%N ++ runes_of_ascii """
-    // c
-    } root
-    packet body { stringy @calculatedFrom(
-""a	b"" ) `line1
-line2` , }
-packet Logon {
-    @leftPad @leftPad(
-    ' ' ) //	t
-u16 string_ `u8 x,` ,
-}
-")).
-Eval vm_compute in ("<<<M1712>>>" ++ check (runes_of_ascii "options { trueish = ""`tick`"" ; string_= """ ++ [233]%N ++ runes_of_ascii "t" ++ [233]%N ++ runes_of_ascii """ """ ++ [233]%N ++ runes_of_ascii "t" ++ [233]%N ++ runes_of_ascii """
-    // c
-    } root
-    packet body { stringy @calculatedFrom(
-""a	b"" ) `line1
-line2` , }
-packet Logon {
-    @leftPad(
-    ' ' ) //	t
-u16 string_ `u8 x,` ,
-}
-")).
-Eval vm_compute in ("<<<M1737>>>" ++ check (runes_of_ascii "options { trueish = ""`tick`"" ; string_= """ ++ [233]%N ++ runes_of_ascii "t" ++ [233]%N ++ runes_of_ascii """
-    // c
-    } root
-    packet body { { stringy @calculatedFrom(
-""a	b"" ) `line1
-line2` , }
-packet Logon {
-    @leftPad(
-    ' ' ) //	t
-u16 string_ `u8 x,` ,
-}
-")).
-Eval vm_compute in ("<<<M1008>>>" ++ check (runes_of_ascii "packet roots{ @lengthOf(
-pack )@tag( 4294967296 // c
-) As  i8i8// @lengthOf(
-`line1
-line2` , repeat Header A,@lengthOf(roots	)
-@lengthOf(
-packetx)
-@tag(// trailing space 
-42
-) repeat int8
-Logon ,
-    }
-")).
-Eval vm_compute in ("<<<M1803>>>" ++ check (runes_of_ascii "options { trueish = ""`tick`"" ; string_= """ ++ [233]%N ++ runes_of_ascii "t" ++ [233]%N ++ runes_of_ascii """
-    // c
-    } root
-    packet body { stringy @calculatedFrom(
-""a	b"" ) `line1
-line2` , }
-packet Logon {
-    @leftPad(
-    ) ' ' //	t
-u16 string_ `u8 x,` ,
-}
-")).
-Eval vm_compute in ("<<<M1784>>>" ++ check (runes_of_ascii "options { trueish = ""`tick`"" ; string_= """ ++ [233]%N ++ runes_of_ascii "t" ++ [233]%N ++ runes_of_ascii """
-    // c
-    } root
-    packet body { stringy @calculatedFrom(
-""a	b"" ) `line1
-line2` , }
-packet i8 {
-    @leftPad(
-    ' ' ) //	t
-u16 string_ `u8 x,` ,
-}
-")).
-Eval vm_compute in ("<<<M1611>>>" ++ check (runes_of_ascii "packet
-//	t
-// trailing space 
-_x {
-// packet A { u8 x, }
-// c
-char[
-3
-    ] u8x @lengthOf(
-u8x ) , @calculatedFrom(""" ++ [128512]%N ++ runes_of_ascii """ // @lengthOf(
-)
-i16	Foo
-@lengthOf(	string_
-    )`doc`	, repeat	i64 metadata")).
-Eval vm_compute in ("<<<M354>>>" ++ check (runes_of_ascii "MetaData u128 { char[]falsey ,u8  roots	, i8
-u `doc`, packetx int ,
-}// c
-packet asx
-{ }
-options	{ matchKey= ""// no comment"" Logon
-= char[]
-    u128=
-false options1 =' '
-len
-    = '\x00'  }")).
-Eval vm_compute in ("<<<M3595>>>" ++ check (runes_of_ascii "options {
-    FixedStringPadChar = '0';
-}
-packet Q {
-    zchar[4] z,
-    @rightPad('\x00') char[3] n,
-    char[5] d,
-}
-root packet R {
-    Q,
-    zchar[8] top,
-    repeat zchar[2] zs,
-}
-")).
-Eval vm_compute in ("<<<M967>>>" ++ check (runes_of_ascii "packet
-f32a {int16 x	@calculatedFrom( ""{,}"" ) ,  repeat char[]
-    As	, repeat char[] u128 , stringy @calculatedFrom( ""a	b"") ,
-    } MetaData A
-    { zchar[
-    65535	] //
-body,}")).
-Eval vm_compute in ("<<<M1810>>>" ++ check (runes_of_ascii "options { trueish = ""`tick`"" ; string_= """ ++ [233]%N ++ runes_of_ascii "t" ++ [233]%N ++ runes_of_ascii """
-    // c
-    } root
-    packet body { stringy @calculatedFrom(
-""a	b"" ) `line1
-line2` , }
-packet Logon {
-    @leftPad(
-    ' '")).
-Eval vm_compute in ("<<<M1257>>>" ++ check (runes_of_ascii "root packet falsey {
-repeat char[] leftPad	, repeat
-f64 // " ++ [128512]%N ++ runes_of_ascii " emoji
-_x `{ , }` , @tag(  0)
-    // `tick` ""quote"" 'q'
-    uint64 float
-    @calculatedFrom(""{,}"") , }
-")).
-Eval vm_compute in ("<<<M1287>>>" ++ check (runes_of_ascii "  packet rootA { asx , @tag(
-    //x
-    10 // " ++ [128512]%N ++ runes_of_ascii " emoji
-)	@tag( 1	) @calculatedFrom( ""1"" ) /// triple
-charz @calculatedFrom( ""a\\"")`line1
-line2`, // @lengthOf(
-}")).
-Eval vm_compute in ("<<<M2346>>>" ++ check (runes_of_ascii "// c
-packet match { @lengthOf( metadata ) repeat lengthOf
-,a1{
-trueish	,// c
-repeat//	t
-MetaDataX , } , zchar[
-    42	] rootA // `tick` ""quote"" 'q'
-,
-    }
-")).
-Eval vm_compute in ("<<<M2352>>>" ++ check (runes_of_ascii "// c
-packet x { @lengthOf( metadata ) repeat lengthOf
-,a1{
-trueish	,// c
-repeat//	t
-MetaDataX , } , , zchar[
-    42	] rootA // `tick` ""quote"" 'q'
-,
-    }
-")).
-Eval vm_compute in ("<<<M2090>>>" ++ check (runes_of_ascii "options{
-_x
-= = true
-} options
-{ o	= /// triple
-false
-    ; chars
-= ""\n"" } root packet	Pad
-/// triple
-// packet A { u8 x, }
-{	chars
-    // a // b
-    ,}")).
-Eval vm_compute in ("<<<M2418>>>" ++ check (runes_of_ascii "// c
-packet x { @lengthOf( metadata ) repeat lengthOf
-,a1{
-trueish	,// c
-repeat//	t
-MetaDataX } , , zchar[
-    42	] rootA // `tick` ""quote"" 'q'
-,
-    }
-")).
-Eval vm_compute in ("<<<M2092>>>" ++ check (runes_of_ascii "options{
-_x
-) true
-} options
-{ o	= /// triple
-false
-    ; chars
-= ""\n"" } root packet	Pad
-/// triple
-// packet A { u8 x, }
-{	chars
-    // a // b
-    ,}")).
-Eval vm_compute in ("<<<M2080>>>" ++ check (runes_of_ascii "options
-_x
-= true
-} options
-{ o	= /// triple
-false
-    ; chars
-= ""\n"" } root packet	Pad
-/// triple
-// packet A { u8 x, }
-{	chars
-    // a // b
-    ,}")).
-Eval vm_compute in ("<<<M2318>>>" ++ check (runes_of_ascii "// c
-packet x { @lengthOf( metadata ) repeat lengthOf
-,a1{
-trueish	,// c
-repeat//	t
-MetaDataX , } , zchar[
-    42	]  // `tick` ""quote"" 'q'
-,
-    }
-")).
-Eval vm_compute in ("<<<M2174>>>" ++ check (runes_of_ascii "options{
-_x
-= true
-} options
-{ o	= /// triple
-false
-    ; chars
-= ""\n"" } root packet	Pad
-/// triple
-// packet A { u8 x, }
-{	
-    // a // b
-    ,}")).
-Eval vm_compute in ("<<<M708>>>" ++ check (runes_of_ascii "packet  As
-{ char[] metadata
-`doc`
-, } root packet	int
-{ // packet A { u8 x, }
-zchar[ // @lengthOf(
-007 ] leftPad ,
-} // `tick` ""quote"" 'q'")).
-Eval vm_compute in ("<<<M1651>>>" ++ check (runes_of_ascii "packet
-//	t
-// trailing space 
-_x {
-// packet A { u8 x, }
-// c
-char[
-3
-    ] u8x @lengthOf(
-u8x ) , @calculatedFrom(""" ++ [128512]%N ++ runes_of_ascii """ // @lengthOf(
-)
-i1")).
-Eval vm_compute in ("<<<M1418>>>" ++ check (runes_of_ascii "
-packet
-    falsey { Header@calculatedFrom( @calculatedFrom(""packet""  ) , char[
-    0123456789 ] packetx
-    , } // `tick` ""quote"" 'q'")).
-Eval vm_compute in ("<<<M685>>>" ++ check (runes_of_ascii "MetaData
-u128
-    {string	falsey `u8 x,` // c
-,
-trueish
-roots , } options
-    {msg_type =
-/// triple
-// trailing space 
-""" ++ [128512]%N ++ runes_of_ascii """ ; }")).
-Eval vm_compute in ("<<<M1399>>>" ++ check (runes_of_ascii "
-packet packet
-    falsey { Header@calculatedFrom(""packet""  ) , char[
-    0123456789 ] packetx
-    , } // `tick` ""quote"" 'q'")).
-Eval vm_compute in ("<<<M4594>>>" ++ check (runes_of_ascii "
+{
 
-  packet crc { 
+1
+: B	,
+	},
+
+u16
+    L
+
 @lengthOf(
 
-    falsey
+Body)
+	,}
+")).
+Eval vm_compute in ("<<<M1651>>>" ++ check (runes_of_ascii "MetaData metadata{char[65535	] 
+x
+, 
 
-    )
-Packet  /// triple
-    	`crlf
-line`
-    // trailing space 
-    , }
+    // c
+
+  char[]
+	u128	, pack
+    Z9_ , }packet// " ++ [27880; 37322]%N ++ runes_of_ascii "
+		a1
+{repeat
+float 
+repeatCount ,	}
 
 ")).
-Eval vm_compute in ("<<<M3339>>>" ++ check (runes_of_ascii "root packet matchKey { zchar[ 3 ] pack @calculatedFrom( ""a	b"" ) `doc` , }
-// c
-options { } MetaData A { int8 msg_type , }")).
-Eval vm_compute in ("<<<M1458>>>" ++ check (runes_of_ascii "
-packet
-    falsey { Header@calculatedFrom(""packet""  ) , char[
-    0123456789 ] packetx
-    , , } // `tick` ""quote"" 'q'")).
-Eval vm_compute in ("<<<M1312>>>" ++ check (runes_of_ascii "options{ charz =
-    0 ; rootA = false
-;
-// @lengthOf(
-// packet A { u8 x, }
-As
-//	t
-//x
-=
-    true ; Pad = '\x00' }
+Eval vm_compute in ("<<<M1876>>>" ++ check (runes_of_ascii "MetaData
+
+    float 
+{float64	charz `
+`, }
+
+    root
+    packet
+	chars
+    {
+@rightPad	// c
+		(
+'0' )
+
+    Foo
+
+,	}
 ")).
-Eval vm_compute in ("<<<M1485>>>" ++ check (runes_of_ascii "
-packet
-    falsey { na" ++ [239]%N ++ runes_of_ascii "ve@calculatedFrom(""packet""  ) , char[
-    0123456789 ] packetx
-    , } // `tick` ""quote"" 'q'")).
-Eval vm_compute in ("<<<M1437>>>" ++ check (runes_of_ascii "
-packet
-    falsey { Header@calculatedFrom(""packet""  ) , 
-    0123456789 ] packetx
-    , } // `tick` ""quote"" 'q'")).
-Eval vm_compute in ("<<<M3872>>>" ++ check (runes_of_ascii "
-
-  packet
-o {
-repeat Logon
-
-uint8x
-    ,
-}
-    options	{
-    asx
-	= 
-zchar[
+Eval vm_compute in ("<<<M1242>>>" ++ check (runes_of_ascii "root packet matchKey { zchar[ 3 ] pack @calculatedFrom( ""a	b""
 // c
-	3	]
-stringy=  '\x00'
-
+) `doc` , } options { } MetaData A { int8 msg_type , }")).
+Eval vm_compute in ("<<<M1970>>>" ++ check (runes_of_ascii "packet A {
+    u16 len @lengthOf(body) `
+        `,
+    u32 crc @calculatedFrom(""CRC32"") `
+        `,
+    string body,
 }")).
-Eval vm_compute in ("<<<M833>>>" ++ check (runes_of_ascii "packet
-chars
-    { @tag(	0123456789) match crc as
-tag { 10
-    : uint8x ,
-[ 42 ]:
-int // " ++ [128512]%N ++ runes_of_ascii " emoji
-,}
-, }
+Eval vm_compute in ("<<<M2097>>>" ++ check (runes_of_ascii "packet metadata {
+    Logon {
+        A `" ++ [28040; 24687; 31867; 22411]%N ++ runes_of_ascii "`,
+        tag o,
+    },
+    zchar len `// not a comment`,
+    // c
+}")).
+Eval vm_compute in ("<<<M2052>>>" ++ check (runes_of_ascii "MetaData falsey
+
+{ 
+//x
+
+//	t
+char[	/// triple
+  65535	]
+
+Packet
+
+    `{ , }` , // @lengthOf(
+    } 	 //x
 ")).
-Eval vm_compute in ("<<<M3569>>>" ++ check (runes_of_ascii "// top
-root // c0a
-  // c0b
-packet P // c2a
-  // c2b
-{ // c3
-string
-    // c4
-s
-    // c5
-,
-    // c6
-} ")).
-Eval vm_compute in ("<<<M2979>>>" ++ check (runes_of_ascii "packet A {
+Eval vm_compute in ("<<<M904>>>" ++ check (runes_of_ascii "packet A {
   match k as n {
-    [1, ""bb"", 007, ""d"", 5, ""f"", 7, ""h"", 9, ""j"", 11] : B,
+    [1, ""bb"", 007, ""d"", 5, ""f"", 7, ""h"", 9, ""j"", 11, ""l""] : B
     2 : C
   },
 }")).
-Eval vm_compute in ("<<<M3040>>>" ++ check (runes_of_ascii "packet A {
-    Inner {
-        u8 x `
-x`,
-        Deep {
-            u8 y `
-x`,
-        },
-    },
+Eval vm_compute in ("<<<M1978>>>" ++ check (runes_of_ascii "packet FooBar {
+    u8 a,
+}
+
+packet foo_bar {
+    u16 b,
+}
+
+root packet R {
+    FooBar,
+    foo_bar,
 }")).
-Eval vm_compute in ("<<<M2421>>>" ++ check (runes_of_ascii "// c
-packet x { @lengthOf( metadata ) repeat lengthOf
-,a1{
-trueish	,// c
-repeat//	t
-MetaDataX ,")).
-Eval vm_compute in ("<<<M609>>>" ++ check (runes_of_ascii "packet float	{i64 u8x @lengthOf(
-    //x
-    leftPad ) // packet A { u8 x, }
-`line1
-line2`
-,}")).
-Eval vm_compute in ("<<<M2215>>>" ++ check (runes_of_ascii "options
-""it's"" } options { BodyLength= u16 Header= f64 ; u128 =
-    true
-    ; } // a // b")).
-Eval vm_compute in ("<<<M4020>>>" ++ check (runes_of_ascii "MetaData body 
-{ i64
-pack
-	`it's`	,	}
-packet stringy
+Eval vm_compute in ("<<<M870>>>" ++ check (runes_of_ascii "packet A {
+  match k as n {
+    [""a"", ""bb"", 007, ""d"", ""e"", 66, ""g"", ""h"", 9] : B,
+    2 : C
+  },
+}")).
+Eval vm_compute in ("<<<M383>>>" ++ check (runes_of_ascii "root packet SimpleMessage {
+    uint16 MsgType `" ++ [28040; 24687; 31867; 22411]%N ++ runes_of_ascii "`,
+    string JsonBody `Json" ++ [23383; 31526; 20018; 28040; 24687; 20307]%N ++ runes_of_ascii "`,
+}")).
+Eval vm_compute in ("<<<M1625>>>" ++ check (runes_of_ascii "packet o {
+    repeat Logon uint8x,
+}
 
-{
-int16
-
-calculatedFrom , 
+options {
+    asx = zchar[3]
+    stringy = '\x00'
+}")).
+Eval vm_compute in ("<<<M1201>>>" ++ check (runes_of_ascii "MetaData float { float64 charz `
+` , } root packet chars
 // c
-	}")).
-Eval vm_compute in ("<<<M3287>>>" ++ check (runes_of_ascii "MetaData float { float64 charz `
-` , } root packet // c
-chars { @rightPad ( '0' ) Foo , }")).
-Eval vm_compute in ("<<<M3498>>>" ++ check (runes_of_ascii "packet chars { } packet MetaDataX {
+{ @rightPad ( '0' ) Foo , }")).
+Eval vm_compute in ("<<<M1412>>>" ++ check (runes_of_ascii "packet chars { } packet MetaDataX { @tag( 42 // c
+) i16 string_ , repeat x `say ""hi""` , }")).
+Eval vm_compute in ("<<<M931>>>" ++ check (runes_of_ascii "packet A {
+    B b `a
+    b
+  c`,
+    B `a
+    b
+  c`,
+    repeat B bs `a
+    b
+  c`,
+}")).
+Eval vm_compute in ("<<<M1142>>>" ++ check (runes_of_ascii "packet metadata { Logon { A `" ++ [28040; 24687; 31867; 22411]%N ++ runes_of_ascii "` , tag o // c
+, } , zchar len `// not a comment` , }")).
+Eval vm_compute in ("<<<M1347>>>" ++ check (runes_of_ascii "packet o { repeat
 // c
-@tag( 42 ) i16 string_ , repeat x `say ""hi""` , }")).
-Eval vm_compute in ("<<<M2252>>>" ++ check (runes_of_ascii "options
-{ } options { BodyLength= u16 Header= = f64 ; u128 =
-    true
-    ; } // a // b")).
-Eval vm_compute in ("<<<M2307>>>" ++ check (runes_of_ascii "options
-{ } options { BodyLength= u16 Header= f64 ; #u128 =
-    true
-    ; } // a // b")).
-Eval vm_compute in ("<<<M2268>>>" ++ check (runes_of_ascii "options
-{ } options { BodyLength= u16 Header= f64 ; = u128
-    true
-    ; } // a // b")).
-Eval vm_compute in ("<<<M3238>>>" ++ check (runes_of_ascii "packet metadata { Logon { A `" ++ [28040; 24687; 31867; 22411]%N ++ runes_of_ascii "` , tag o , } ,
+Logon uint8x , } options { asx = zchar[ 3 ] stringy = '\x00' }")).
+Eval vm_compute in ("<<<M7>>>" ++ check (runes_of_ascii "packet pack {
+repeat As {
+char[ 65535 // trailing space 
+] crc `crlf
+line` , },
+}
+")).
+Eval vm_compute in ("<<<M1308>>>" ++ check (runes_of_ascii "MetaData body
 // c
-zchar len `// not a comment` , }")).
-Eval vm_compute in ("<<<M3429>>>" ++ check (runes_of_ascii "packet // c
-o { repeat Logon uint8x , } options { asx = zchar[ 3 ] stringy = '\x00' }")).
-Eval vm_compute in ("<<<M3461>>>" ++ check (runes_of_ascii "packet o { repeat Logon uint8x , } options { asx = zchar[ 3 ] stringy = // c
-'\x00' }")).
-Eval vm_compute in ("<<<M2269>>>" ++ check (runes_of_ascii "options
-{ } options { BodyLength= u16 Header= f64 ; = =
-    true
-    ; } // a // b")).
-Eval vm_compute in ("<<<M3404>>>" ++ check (runes_of_ascii "MetaData body { i64 pack `it's` // c
-, } packet stringy { int16 calculatedFrom , }")).
-Eval vm_compute in ("<<<M2932>>>" ++ check (runes_of_ascii "packet A {
+{ i64 pack `it's` , } packet stringy { int16 calculatedFrom , }")).
+Eval vm_compute in ("<<<M843>>>" ++ check (runes_of_ascii "packet A {
   match k as n {
     [1, 22, ""c c"", 4, 5, ""f"", 7] : B
     2 : C
   },
 }")).
-Eval vm_compute in ("<<<M3056>>>" ++ check (runes_of_ascii "packet A {
-    u32 crc @calculatedFrom(""\
-""),
-    @calculatedFrom(""\
-"") u8 y,
-}")).
-Eval vm_compute in ("<<<M4176>>>" ++ check (runes_of_ascii "packet A {
-    match k as n {
-        [""a"", 22] : B,
-        2 : C,
-    },
-}")).
-Eval vm_compute in ("<<<M4618>>>" ++ check (runes_of_ascii "  packet  x  // c
-    { @rightPad
-(  )
-repeat
-roots
-	Logon `doc` ,
-    }")).
-Eval vm_compute in ("<<<M1055>>>" ++ check (runes_of_ascii "packet packetx { /// triple
-@rightPad ('0' ) @tag( 007)Logon Pad ,  }
-")).
-Eval vm_compute in ("<<<M3785>>>" ++ check (runes_of_ascii "packet pack {
-    int64 options1,
-    // packet A { u8 x, }
-    //
-}")).
-Eval vm_compute in ("<<<M2872>>>" ++ check (runes_of_ascii "packet A {
+Eval vm_compute in ("<<<M797>>>" ++ check (runes_of_ascii "packet A {
   match k as n {
-    [1, 22, 007] : B
+    [""a"", ""bb"", ""c c"", ""d""] : B,
     2 : C
   },
 }")).
-Eval vm_compute in ("<<<M4088>>>" ++ check (runes_of_ascii "MetaData M {
-    u8 x `a
-    
-    b`,
-    T t `a
-    
-    b`,
+Eval vm_compute in ("<<<M955>>>" ++ check (runes_of_ascii "packet A {
+    B b `tab
+	x`,
+    B `tab
+	x`,
+    repeat B bs `tab
+	x`,
 }")).
-Eval vm_compute in ("<<<M3038>>>" ++ check (runes_of_ascii "packet A {
-    B b `
-x`,
-    B `
-x`,
-    repeat B bs `
-x`,
-}")).
-Eval vm_compute in ("<<<M3249>>>" ++ check (runes_of_ascii "// top
-root // c0
+Eval vm_compute in ("<<<M1616>>>" ++ check (runes_of_ascii "
+// top
+  root// c0
 packet // c1
-pack // c2
-{ // c3
-} // c4
+  pack	// c2
+	{// c3
+} 	 // c4
+ 
 ")).
-Eval vm_compute in ("<<<M2883>>>" ++ check (runes_of_ascii "packet A { Inner { match k as n { [1,22,007] : B, }, }, }")).
-Eval vm_compute in ("<<<M4004>>>" ++ check (runes_of_ascii "// trailing space 
-packet Foo {
-    zchar[255] body,
-}")).
-Eval vm_compute in ("<<<M2861>>>" ++ check (runes_of_ascii "packet A { Inner { match k as n { [1] : B, }, }, }")).
-Eval vm_compute in ("<<<M2831>>>" ++ check (runes_of_ascii "repeat @leftPad false int8 int16 char[ uint64 ]")).
-Eval vm_compute in ("<<<M2611>>>" ++ check (runes_of_ascii "packet A { match k as n { [1,""a"",2] : B, }, }")).
-Eval vm_compute in ("<<<M4517>>>" ++ check (runes_of_ascii "// c
-root packet u128 {
-    chars `it's`,
-}")).
-Eval vm_compute in ("<<<M2612>>>" ++ check (runes_of_ascii "packet A { match k as n { [[1]] : B }, }")).
-Eval vm_compute in ("<<<M2792>>>" ++ check (runes_of_ascii "&b}S=WnA*Kztkm]4ju&E{0O4$QB[x]{2&jMd""VW")).
-Eval vm_compute in ("<<<M4086>>>" ++ check (runes_of_ascii "packet A {
+Eval vm_compute in ("<<<M1663>>>" ++ check (runes_of_ascii "MetaData M {
     u8 x `a
-    
-    b`,
+        b`,
+    T t `a
+        b`,
 }")).
-Eval vm_compute in ("<<<M2604>>>" ++ check (runes_of_ascii "packet A { match k as n { 1 : B } }")).
-Eval vm_compute in ("<<<M4494>>>" ++ check (runes_of_ascii "packet	A {	B 
-{ u8
-    x,
-	}
-
-,
-} ")).
-Eval vm_compute in ("<<<M3127>>>" ++ check (runes_of_ascii "packet A {
- u8 x `d 	`, // c 	
-}")).
-Eval vm_compute in ("<<<M2728>>>" ++ check ([12; 1143; 65533]%N ++ runes_of_ascii ",j^" ++ [65533; 65533]%N ++ runes_of_ascii "t" ++ [65533; 65533; 19; 65533; 65533; 65533; 65533; 65533]%N ++ runes_of_ascii "-
-" ++ [65533; 1407; 65533]%N ++ runes_of_ascii "}^$" ++ [65533; 65533]%N ++ runes_of_ascii "O " ++ [65533]%N)).
-Eval vm_compute in ("<<<M2446>>>" ++ check (runes_of_ascii "f32 f64 float32 float64 float")).
-Eval vm_compute in ("<<<M2643>>>" ++ check (runes_of_ascii "packet A { } x packet B { }")).
-Eval vm_compute in ("<<<M3262>>>" ++ check (runes_of_ascii "root packet pack { } // c
-")).
-Eval vm_compute in ("<<<M634>>>" ++ check (runes_of_ascii "options {
-As = true ; }")).
-Eval vm_compute in ("<<<M59>>>" ++ check (runes_of_ascii "// packet A { u8 x, }
-")).
-Eval vm_compute in ("<<<M4275>>>" ++ check (runes_of_ascii "// packet A { u8 x, }")).
-Eval vm_compute in ("<<<M2540>>>" ++ check (runes_of_ascii ": , ; = ( ) [ ] { }")).
-Eval vm_compute in ("<<<M2103>>>" ++ check (runes_of_ascii "options{
-_x
-= true")).
-Eval vm_compute in ("<<<M3130>>>" ++ check (runes_of_ascii "packet A {
+Eval vm_compute in ("<<<M1649>>>" ++ check (runes_of_ascii "packet float {
 }
-// c" ++ [8203]%N)).
-Eval vm_compute in ("<<<M3088>>>" ++ check (runes_of_ascii "packet A {
-}// c" ++ [8202]%N)).
-Eval vm_compute in ("<<<M1173>>>" ++ check (runes_of_ascii "packet f32a
-{}
+
+MetaData As {
+    char[] trueish,
+}
+// " ++ [27880; 37322]%N)).
+Eval vm_compute in ("<<<M1704>>>" ++ check (runes_of_ascii "packet x {
+    @rightPad()
+    repeat roots Logon `doc`,
+}")).
+Eval vm_compute in ("<<<M772>>>" ++ check (runes_of_ascii "packet A { Inner { match k as n { [1] : B, }, }, }")).
+Eval vm_compute in ("<<<M1924>>>" ++ check (runes_of_ascii "MetaData	packetx	{ zchar[ 7 
+]  u128
+    ,	}
 ")).
-Eval vm_compute in ("<<<M4039>>>" ++ check (runes_of_ascii "
-options
-{}
-")).
-Eval vm_compute in ("<<<M2487>>>" ++ check (runes_of_ascii "@lengthOf(")).
-Eval vm_compute in ("<<<M340>>>" ++ check (runes_of_ascii "// " ++ [27880; 37322]%N ++ runes_of_ascii "
+Eval vm_compute in ("<<<M2031>>>" ++ check (runes_of_ascii "packet	A 
+{ u8 x`d" ++ [12]%N ++ runes_of_ascii "`
+
+    ,	// c" ++ [12]%N ++ runes_of_ascii "
+  }
 
 ")).
-Eval vm_compute in ("<<<M2515>>>" ++ check (runes_of_ascii """a\b""")).
-Eval vm_compute in ("<<<M2838>>>" ++ check (runes_of_ascii "{yr*k")).
-Eval vm_compute in ("<<<M2510>>>" ++ check (runes_of_ascii """a\""")).
-Eval vm_compute in ("<<<M2528>>>" ++ check (runes_of_ascii "007")).
-Eval vm_compute in ("<<<M2520>>>" ++ check (runes_of_ascii "``")).
-Eval vm_compute in ("<<<M2799>>>" ++ check (runes_of_ascii "J")).
+Eval vm_compute in ("<<<M1861>>>" ++ check (runes_of_ascii "packet
+    A	{ u8  x `d" ++ [8233]%N ++ runes_of_ascii "` , // c" ++ [8233]%N ++ runes_of_ascii "
+}
+
+")).
+Eval vm_compute in ("<<<M1735>>>" ++ check (runes_of_ascii "  root // c
+
+packet 
+pack  { 
+}
+")).
+Eval vm_compute in ("<<<M1013>>>" ++ check (runes_of_ascii "packet A {
+ u8 x `d" ++ [8233]%N ++ runes_of_ascii "`, // c" ++ [8233]%N ++ runes_of_ascii "
+}")).
+Eval vm_compute in ("<<<M1836>>>" ++ check (runes_of_ascii "
+
+  packet
+    float
+{
+} ")).
+Eval vm_compute in ("<<<M171>>>" ++ check (runes_of_ascii "packet options1 {  }
+
+")).
+Eval vm_compute in ("<<<M149>>>" ++ check (runes_of_ascii "packet	crc
+    { }")).
+Eval vm_compute in ("<<<M1047>>>" ++ check (runes_of_ascii "// c" ++ [65279]%N ++ runes_of_ascii "
+packet A {
+}")).
+Eval vm_compute in ("<<<M497>>>" ++ check (runes_of_ascii "root packet tag")).
+Eval vm_compute in ("<<<M393>>>" ++ check (runes_of_ascii "packet")).
+Eval vm_compute in ("<<<M731>>>" ++ check (runes_of_ascii " " ++ [12]%N ++ runes_of_ascii " ")).
